@@ -42,6 +42,23 @@
 (*   free x        call_rcu_data_free(slot[x])                             *)
 (*   barrier       rcu_barrier()                                           *)
 (*   pause/resume  call_rcu_before_fork() / call_rcu_after_fork_parent()   *)
+(*   pub n         old = rcu_xchg_pointer(&gptr, n)   (n = "obj1", ...)     *)
+(*   qfree         the object unpublished by this thread's last pub is      *)
+(*                 reclaimed (C19 scenarios: pub; sync; qfree)              *)
+(*                                                                         *)
+(* C19 (signal handlers).  For every t in SigThreads the process "S:"t is  *)
+(* a signal handler that may interrupt t between any two of its steps --   *)
+(* inside call_rcu(), between the two steps of the wfcq enqueue, inside the *)
+(* lazy creation of the default helper under call_rcu_mutex, ... -- at most *)
+(* SigBudget times per execution; t takes no step while its handler runs   *)
+(* (SigNext below).  The handler does rcu_read_lock(); p =                 *)
+(* rcu_dereference(gptr); touch *p; rcu_read_unlock() on the abstract      *)
+(* reader state (rnest / cs) of t, through t's store buffer.  SigRestores: *)
+(* at sig_exit nesting and open section of t are those found at sig_enter. *)
+(* The handler's section is an ordinary section of t for gp_b / gp_e, snap *)
+(* (AfterGP) and NoUseAfterFree (a handler touching a reclaimed object).   *)
+(* With SigThreads = {} there is no such process, no gptr location and the *)
+(* state space is that of the module without signals.                      *)
 (*                                                                         *)
 (* Ghosts / properties: cnt (invocations per rcu_head), snap (sections     *)
 (* open at call_rcu entry), fin (callback returned), bsnap (call_rcu()s    *)
@@ -60,7 +77,10 @@ CONSTANTS Threads,    \* set of scenario thread ids (strings)
           NCpu,       \* number of model CPUs (possible-CPU array length)
           Re,         \* [rcu_head node -> node its callback passes to call_rcu, or "-"]
           Spurious,   \* budget of spurious / EINTR returns of FUTEX_WAIT
-          Mut         \* model-level mutants (subset of {"nogp","gpfirst","nowake","nohandover","earlycount","nomutex","noref","norlock","nofasync"})
+          SigThreads, \* threads that the signal handler may interrupt (C19); {} otherwise
+          SigBudget,  \* number of signal deliveries per execution
+          Mut         \* model-level mutants (subset of {"nogp","gpfirst","nowake","nohandover","earlycount","nomutex","noref","norlock","nofasync",
+                      \*  C19: "sigleak" the handler's nested rcu_read_unlock is lost, "nousync" the updater's synchronize_rcu() does nothing})
 
 NULL == "NULL"
 RT == 1  STOP == 4  STOPPED == 8  PAUSE == 16  PAUSED == 32
@@ -98,7 +118,13 @@ RefOf(k) == k \o ".ref"
 PSlot(i) == "pcpu" \o ToString(i)
 CrLocs(c) == {NextOf(Hd(c)), TailOf(c), FlagsOf(c), FutexOf(c), QlenOf(c)}
 KLocs(k) == {CountOf(k), FutexOf(k), RefOf(k)}
-PtrLocs == {TailOf(c) : c \in Crdps} \cup {NextOf(Hd(c)) : c \in Crdps} \cup {NextOf(n) : n \in Nodes \cup Works}
+SigId(t) == "S:" \o t
+SigIds == {SigId(t) : t \in SigThreads}
+SigOf == [h \in SigIds |-> CHOOSE t \in SigThreads : SigId(t) = h]
+GObjs == {"obj0", "obj1", "obj2"}                   \* objects published through gptr (C19 scenarios)
+UsesGptr == SigThreads # {} \/ \E o \in AllOps : o.op \in {"pub", "qfree"}
+GLocs == IF UsesGptr THEN {"gptr"} ELSE {}
+PtrLocs == GLocs \cup {TailOf(c) : c \in Crdps} \cup {NextOf(Hd(c)) : c \in Crdps} \cup {NextOf(n) : n \in Nodes \cup Works}
           \cup {"dflt", "pcpu"} \cup {PSlot(i) : i \in 0..(NCpu - 1)}
 IntLocs == UNION {{FlagsOf(c), FutexOf(c), QlenOf(c)} : c \in Crdps} \cup UNION {KLocs(k) : k \in Comps}
 Locs == PtrLocs \cup IntLocs
@@ -122,6 +148,7 @@ FName(n) == IF n \in Works THEN "barrier_complete" ELSE IF Re[n] = "-" THEN "cb"
 (* --algorithm callrcu {
 variables
   mem = [l \in Locs |-> IF l \in IntLocs THEN 0
+                        ELSE IF l = "gptr" THEN "obj0"
                         ELSE IF \E c \in Crdps : l = TailOf(c) THEN Hd(CHOOSE c \in Crdps : l = TailOf(c))
                         ELSE NULL],
   sb = [t \in Procs |-> <<>>],
@@ -183,7 +210,12 @@ variables
   ci = [t \in Procs |-> 0],                 \* create_all / free_all: cpu loop index
   cac = [t \in Procs |-> NULL],             \* create_all: crdp just created
   fa = [t \in Procs |-> [i \in 0..(NCpu - 1) |-> NULL]],   \* free_all: local crdp[] array
-  gps = [t \in Procs |-> NoSnap];           \* synchronize_rcu: sections to wait for
+  gps = [t \in Procs |-> NoSnap],           \* synchronize_rcu: sections to wait for
+  \* C19: signal handlers, objects published through gptr
+  sigs = 0,                                 \* signals delivered so far
+  insig = [t \in Threads |-> FALSE],        \* the thread is executing the signal handler
+  oalive = [o \in GObjs |-> TRUE],          \* the object has not been reclaimed
+  gold = [t \in Threads |-> NULL];          \* pub: the pointer this thread unpublished
 
 define {
   LastIdx(t, loc) == LET S == {i \in DOMAIN sb[t] : sb[t][i][1] = loc} IN
@@ -539,6 +571,34 @@ sw: while (TRUE) {
     }
 }
 
+\* ------------------------------------------------------------------ C19: signal handler interrupting thread ST
+\* rcu_read_lock(); p = rcu_dereference(gptr); touch *p; rcu_read_unlock() at ANY point of ST (between any two of its steps);
+\* delivery and sigreturn go through the kernel: full barriers for ST.  The sig_enter / sig_exit events carry the nesting count
+\* and rcu_read_ongoing() of ST (the executed code logs the values read from the flavor's reader word).
+process (sig \in SigIds)
+variables ST = SigOf[self], hheld = NULL, hent = <<0, 0>>;
+{
+sg_idle: while (TRUE) {
+          await sigs < SigBudget /\ ~insig[ST] /\ pc[ST] \notin {"Done", "t_exit"} /\ ST \notin fsleep /\ Drained(ST);
+          sigs := sigs + 1; insig[ST] := TRUE; hent := <<rnest[ST], cs[ST]>>;
+          acc := Ev(ST, "sig_enter", "-", rnest[ST], "-", IF rnest[ST] > 0 THEN 1 ELSE 0);
+sg_lock:  if (rnest[ST] = 0) { cs[ST] := ncs[ST] + 1; ncs[ST] := ncs[ST] + 1 };   \* rcu_read_lock()
+          rnest[ST] := rnest[ST] + 1;
+          acc := Ev(ST, "rlock", "-", "-", "-", rnest[ST]);
+sg_deref: hheld := Rd(ST, "gptr");                               \* p = rcu_dereference(gptr)
+          acc := Ev(ST, "ld", "gptr", "-", "-", Rd(ST, "gptr"));
+sg_use:   if (~oalive[hheld]) { uaf := TRUE };                   \* touch *p
+sg_unl:   if ("sigleak" \notin Mut \/ hent[1] = 0) { rnest[ST] := rnest[ST] - 1 };   \* rcu_read_unlock()
+          if (rnest[ST] = 0) { cs[ST] := 0 };
+          hheld := NULL;
+          acc := Ev(ST, "runlock", "-", "-", "-", rnest[ST]);
+sg_exit:  await Drained(ST);                                     \* sigreturn
+          if (<<rnest[ST], cs[ST]>> # hent) { Fail("SigRestores") };
+          insig[ST] := FALSE; hent := <<0, 0>>;
+          acc := Ev(ST, "sig_exit", "-", rnest[ST], "-", IF rnest[ST] > 0 THEN 1 ELSE 0);
+        }
+}
+
 \* ------------------------------------------------------------------ call_rcu_thread(crdp), crdp = CrOf[self]
 fair process (helper \in Helpers) {
 h_idle: await started[self];
@@ -659,7 +719,7 @@ t_top:  while (pci[self] <= Len(Prog[self])) {
             acc := Ev(self, "call", IF opx[self].op = "call" THEN opx[self].n ELSE IF opx[self].op \in {"free", "setcpu", "setthr"} /\ opx[self].x # NULL THEN slot[opx[self].x] ELSE "-",
                       opx[self].op, "-", "-");
             if (opx[self].op = "call") { call call_rcu() }
-            else if (opx[self].op = "sync") { call synchronize_rcu() }
+            else if (opx[self].op = "sync") { if ("nousync" \in Mut) { goto t_ret } else { call synchronize_rcu() } }
             else if (opx[self].op = "getdef") { call get_default() }
             else if (opx[self].op = "create") { goto t_crl }
             else if (opx[self].op = "setthr") { tcrd[self] := IF opx[self].x = NULL THEN NULL ELSE slot[opx[self].x]; goto t_ret }
@@ -669,6 +729,8 @@ t_top:  while (pci[self] <= Len(Prog[self])) {
             else if (opx[self].op = "free") { call data_free() }
             else if (opx[self].op = "barrier") { call barrier() }
             else if (opx[self].op = "pause") { call before_fork() }
+            else if (opx[self].op = "pub") { goto t_pub }
+            else if (opx[self].op = "qfree") { oalive[gold[self]] := FALSE; gold[self] := NULL; goto t_ret }
             else { call after_fork_parent() };
           };
 t_ret:    if (opx[self].op = "call") { queued := queued \cup {opx[self].n} }
@@ -677,6 +739,9 @@ t_ret:    if (opx[self].op = "call") { queued := queued \cup {opx[self].n} }
           acc := Ev(self, "ret", "-", "-", "-", res[self]);
           pci[self] := pci[self] + 1;
           goto t_top;
+t_pub:    Xchg(gold[self], "gptr", opx[self].n);                 \* old = rcu_xchg_pointer(&gptr, obj)
+          res[self] := gold[self];
+          goto t_ret;
 t_crl:    Lock();                                                \* create_call_rcu_data(): call_rcu_lock(&call_rcu_mutex)
           call data_init();                                      \*   __create_call_rcu_data(flags, cpu_affinity)
 t_cru:    slot[opx[self].x] := newc[self]; res[self] := newc[self];
@@ -692,7 +757,8 @@ VARIABLES pc, mem, sb, lock, acc, fsleep, wloc, spur, wkind, crlist, nhelp,
           started, cpulen, tcrd, mycpu, slot, func, rnest, cs, ncs, cnt, snap, 
           queued, fin, bsnap, alive, uaf, errs, pci, opx, iv, pa, hd, tl, old, 
           cur, nx, cbc, isrt, en, ec, wc, res, gd, fc, dc, newc, cidef, cifl, 
-          cn, bk, regs, kk, sci, ci, cac, fa, gps, stack
+          cn, bk, regs, kk, sci, ci, cac, fa, gps, sigs, insig, oalive, gold, 
+          stack
 
 (* define statement *)
 LastIdx(t, loc) == LET S == {i \in DOMAIN sb[t] : sb[t][i][1] = loc} IN
@@ -704,17 +770,20 @@ Dead(loc) == LocObj[loc] # "static" /\ alive[LocObj[loc]] = "freed"
 StillOpen(s) == \E p \in Procs : s[p] # 0 /\ cs[p] = s[p]
 Sleepers(loc) == {p \in fsleep : wloc[p] = loc}
 
+VARIABLES ST, hheld, hent
 
 vars == << pc, mem, sb, lock, acc, fsleep, wloc, spur, wkind, crlist, nhelp, 
            started, cpulen, tcrd, mycpu, slot, func, rnest, cs, ncs, cnt, 
            snap, queued, fin, bsnap, alive, uaf, errs, pci, opx, iv, pa, hd, 
            tl, old, cur, nx, cbc, isrt, en, ec, wc, res, gd, fc, dc, newc, 
-           cidef, cifl, cn, bk, regs, kk, sci, ci, cac, fa, gps, stack >>
+           cidef, cifl, cn, bk, regs, kk, sci, ci, cac, fa, gps, sigs, insig, 
+           oalive, gold, stack, ST, hheld, hent >>
 
-ProcSet == (Flushers) \cup ({"W:env"}) \cup (Helpers) \cup (Threads)
+ProcSet == (Flushers) \cup ({"W:env"}) \cup (SigIds) \cup (Helpers) \cup (Threads)
 
 Init == (* Global variables *)
         /\ mem = [l \in Locs |-> IF l \in IntLocs THEN 0
+                                 ELSE IF l = "gptr" THEN "obj0"
                                  ELSE IF \E c \in Crdps : l = TailOf(c) THEN Hd(CHOOSE c \in Crdps : l = TailOf(c))
                                  ELSE NULL]
         /\ sb = [t \in Procs |-> <<>>]
@@ -773,9 +842,18 @@ Init == (* Global variables *)
         /\ cac = [t \in Procs |-> NULL]
         /\ fa = [t \in Procs |-> [i \in 0..(NCpu - 1) |-> NULL]]
         /\ gps = [t \in Procs |-> NoSnap]
+        /\ sigs = 0
+        /\ insig = [t \in Threads |-> FALSE]
+        /\ oalive = [o \in GObjs |-> TRUE]
+        /\ gold = [t \in Threads |-> NULL]
+        (* Process sig *)
+        /\ ST = [self \in SigIds |-> SigOf[self]]
+        /\ hheld = [self \in SigIds |-> NULL]
+        /\ hent = [self \in SigIds |-> <<0, 0>>]
         /\ stack = [self \in ProcSet |-> << >>]
         /\ pc = [self \in ProcSet |-> CASE self \in Flushers -> "fl"
                                         [] self \in {"W:env"} -> "sw"
+                                        [] self \in SigIds -> "sg_idle"
                                         [] self \in Helpers -> "h_idle"
                                         [] self \in Threads -> "t_top"]
 
@@ -790,7 +868,8 @@ gp_b(self) == /\ pc[self] = "gp_b"
                               alive, uaf, errs, pci, opx, iv, pa, hd, tl, old, 
                               cur, nx, cbc, isrt, en, ec, wc, res, gd, fc, dc, 
                               newc, cidef, cifl, cn, bk, regs, kk, sci, ci, 
-                              cac, fa, stack >>
+                              cac, fa, sigs, insig, oalive, gold, stack, ST, 
+                              hheld, hent >>
 
 gp_e(self) == /\ pc[self] = "gp_e"
               /\ ~StillOpen(gps[self])
@@ -803,7 +882,8 @@ gp_e(self) == /\ pc[self] = "gp_e"
                               alive, uaf, errs, pci, opx, iv, pa, hd, tl, old, 
                               cur, nx, cbc, isrt, en, ec, wc, res, gd, fc, dc, 
                               newc, cidef, cifl, cn, bk, regs, kk, sci, ci, 
-                              cac, fa, gps >>
+                              cac, fa, gps, sigs, insig, oalive, gold, ST, 
+                              hheld, hent >>
 
 synchronize_rcu(self) == gp_b(self) \/ gp_e(self)
 
@@ -821,7 +901,8 @@ wk_fl(self) == /\ pc[self] = "wk_fl"
                                fin, bsnap, alive, errs, pci, opx, iv, pa, hd, 
                                tl, old, cur, nx, cbc, isrt, en, ec, wc, res, 
                                gd, fc, dc, newc, cidef, cifl, cn, bk, regs, kk, 
-                               sci, ci, cac, fa, gps >>
+                               sci, ci, cac, fa, gps, sigs, insig, oalive, 
+                               gold, ST, hheld, hent >>
 
 wk_mb(self) == /\ pc[self] = "wk_mb"
                /\ Drained(self)
@@ -833,7 +914,8 @@ wk_mb(self) == /\ pc[self] = "wk_mb"
                                fin, bsnap, alive, uaf, errs, pci, opx, iv, pa, 
                                hd, tl, old, cur, nx, cbc, isrt, en, ec, wc, 
                                res, gd, fc, dc, newc, cidef, cifl, cn, bk, 
-                               regs, kk, sci, ci, cac, fa, gps, stack >>
+                               regs, kk, sci, ci, cac, fa, gps, sigs, insig, 
+                               oalive, gold, stack, ST, hheld, hent >>
 
 wk_ld(self) == /\ pc[self] = "wk_ld"
                /\ uaf' = (uaf \/ Dead((FutexOf(wc[self]))))
@@ -849,7 +931,8 @@ wk_ld(self) == /\ pc[self] = "wk_ld"
                                fin, bsnap, alive, errs, pci, opx, iv, pa, hd, 
                                tl, old, cur, nx, cbc, isrt, en, ec, wc, res, 
                                gd, fc, dc, newc, cidef, cifl, cn, bk, regs, kk, 
-                               sci, ci, cac, fa, gps >>
+                               sci, ci, cac, fa, gps, sigs, insig, oalive, 
+                               gold, ST, hheld, hent >>
 
 wk_st(self) == /\ pc[self] = "wk_st"
                /\ IF TSO
@@ -867,7 +950,8 @@ wk_st(self) == /\ pc[self] = "wk_st"
                                errs, pci, opx, iv, pa, hd, tl, old, cur, nx, 
                                cbc, isrt, en, ec, wc, res, gd, fc, dc, newc, 
                                cidef, cifl, cn, bk, regs, kk, sci, ci, cac, fa, 
-                               gps, stack >>
+                               gps, sigs, insig, oalive, gold, stack, ST, 
+                               hheld, hent >>
 
 wk_fw(self) == /\ pc[self] = "wk_fw"
                /\ Drained(self)
@@ -882,7 +966,7 @@ wk_fw(self) == /\ pc[self] = "wk_fw"
                                errs, pci, opx, iv, pa, hd, tl, old, cur, nx, 
                                cbc, isrt, en, ec, wc, res, gd, fc, dc, newc, 
                                cidef, cifl, cn, bk, regs, kk, sci, ci, cac, fa, 
-                               gps >>
+                               gps, sigs, insig, oalive, gold, ST, hheld, hent >>
 
 wake(self) == wk_fl(self) \/ wk_mb(self) \/ wk_ld(self) \/ wk_st(self)
                  \/ wk_fw(self)
@@ -897,7 +981,8 @@ e_mb(self) == /\ pc[self] = "e_mb"
                               alive, uaf, errs, pci, opx, iv, pa, hd, tl, old, 
                               cur, nx, cbc, isrt, en, ec, wc, res, gd, fc, dc, 
                               newc, cidef, cifl, cn, bk, regs, kk, sci, ci, 
-                              cac, fa, gps, stack >>
+                              cac, fa, gps, sigs, insig, oalive, gold, stack, 
+                              ST, hheld, hent >>
 
 e_xchg(self) == /\ pc[self] = "e_xchg"
                 /\ Drained(self)
@@ -912,7 +997,8 @@ e_xchg(self) == /\ pc[self] = "e_xchg"
                                 bsnap, alive, errs, pci, opx, iv, pa, hd, tl, 
                                 cur, nx, cbc, isrt, en, ec, wc, res, gd, fc, 
                                 dc, newc, cidef, cifl, cn, bk, regs, kk, sci, 
-                                ci, cac, fa, gps, stack >>
+                                ci, cac, fa, gps, sigs, insig, oalive, gold, 
+                                stack, ST, hheld, hent >>
 
 e_link(self) == /\ pc[self] = "e_link"
                 /\ IF TSO
@@ -931,7 +1017,8 @@ e_link(self) == /\ pc[self] = "e_link"
                                 alive, errs, pci, opx, iv, pa, hd, tl, cur, nx, 
                                 cbc, isrt, en, ec, wc, res, gd, fc, dc, newc, 
                                 cidef, cifl, cn, bk, regs, kk, sci, ci, cac, 
-                                fa, gps, stack >>
+                                fa, gps, sigs, insig, oalive, gold, stack, ST, 
+                                hheld, hent >>
 
 e_qlen(self) == /\ pc[self] = "e_qlen"
                 /\ Drained(self)
@@ -949,7 +1036,8 @@ e_qlen(self) == /\ pc[self] = "e_qlen"
                                 bsnap, alive, errs, pci, opx, iv, pa, hd, tl, 
                                 old, cur, nx, cbc, isrt, en, ec, res, gd, fc, 
                                 dc, newc, cidef, cifl, cn, bk, regs, kk, sci, 
-                                ci, cac, fa, gps >>
+                                ci, cac, fa, gps, sigs, insig, oalive, gold, 
+                                ST, hheld, hent >>
 
 enqueue(self) == e_mb(self) \/ e_xchg(self) \/ e_link(self) \/ e_qlen(self)
 
@@ -973,7 +1061,8 @@ ci_new(self) == /\ pc[self] = "ci_new"
                                 ncs, cnt, snap, queued, fin, bsnap, errs, pci, 
                                 opx, iv, pa, hd, tl, old, cur, nx, cbc, isrt, 
                                 en, ec, wc, res, gd, fc, dc, cidef, cifl, cn, 
-                                bk, regs, kk, sci, ci, cac, fa, gps, stack >>
+                                bk, regs, kk, sci, ci, cac, fa, gps, sigs, 
+                                insig, oalive, gold, stack, ST, hheld, hent >>
 
 ci_pub(self) == /\ pc[self] = "ci_pub"
                 /\ IF cidef[self]
@@ -994,7 +1083,8 @@ ci_pub(self) == /\ pc[self] = "ci_pub"
                                 alive, errs, pci, opx, iv, pa, hd, tl, old, 
                                 cur, nx, cbc, isrt, en, ec, wc, res, gd, fc, 
                                 dc, newc, cidef, cifl, cn, bk, regs, kk, sci, 
-                                ci, cac, fa, gps, stack >>
+                                ci, cac, fa, gps, sigs, insig, oalive, gold, 
+                                stack, ST, hheld, hent >>
 
 ci_spawn(self) == /\ pc[self] = "ci_spawn"
                   /\ Drained(self) \/ Tracing
@@ -1008,7 +1098,8 @@ ci_spawn(self) == /\ pc[self] = "ci_spawn"
                                   bsnap, alive, uaf, errs, pci, opx, iv, pa, 
                                   hd, tl, old, cur, nx, cbc, isrt, en, ec, wc, 
                                   res, gd, fc, dc, newc, cidef, cifl, cn, bk, 
-                                  regs, kk, sci, ci, cac, fa, gps >>
+                                  regs, kk, sci, ci, cac, fa, gps, sigs, insig, 
+                                  oalive, gold, ST, hheld, hent >>
 
 data_init(self) == ci_new(self) \/ ci_pub(self) \/ ci_spawn(self)
 
@@ -1027,7 +1118,8 @@ gd_ld(self) == /\ pc[self] = "gd_ld"
                                fin, bsnap, alive, errs, pci, opx, iv, pa, hd, 
                                tl, old, cur, nx, cbc, isrt, en, ec, wc, res, 
                                fc, dc, newc, cidef, cifl, cn, bk, regs, kk, 
-                               sci, ci, cac, fa, gps >>
+                               sci, ci, cac, fa, gps, sigs, insig, oalive, 
+                               gold, ST, hheld, hent >>
 
 gd_lock(self) == /\ pc[self] = "gd_lock"
                  /\ Drained(self) /\ lock = "free"
@@ -1048,7 +1140,8 @@ gd_lock(self) == /\ pc[self] = "gd_lock"
                                  bsnap, alive, uaf, errs, pci, opx, iv, pa, hd, 
                                  tl, old, cur, nx, cbc, isrt, en, ec, wc, res, 
                                  gd, fc, dc, newc, cn, bk, regs, kk, sci, ci, 
-                                 cac, fa, gps >>
+                                 cac, fa, gps, sigs, insig, oalive, gold, ST, 
+                                 hheld, hent >>
 
 gd_unl(self) == /\ pc[self] = "gd_unl"
                 /\ gd' = [gd EXCEPT ![self] = Rd(self, "dflt")]
@@ -1063,7 +1156,8 @@ gd_unl(self) == /\ pc[self] = "gd_unl"
                                 bsnap, alive, uaf, errs, pci, opx, iv, pa, hd, 
                                 tl, old, cur, nx, cbc, isrt, en, ec, wc, res, 
                                 fc, dc, newc, cidef, cifl, cn, bk, regs, kk, 
-                                sci, ci, cac, fa, gps >>
+                                sci, ci, cac, fa, gps, sigs, insig, oalive, 
+                                gold, ST, hheld, hent >>
 
 get_default(self) == gd_ld(self) \/ gd_lock(self) \/ gd_unl(self)
 
@@ -1091,7 +1185,8 @@ cr_lock(self) == /\ pc[self] = "cr_lock"
                                  alive, uaf, errs, pci, opx, iv, pa, hd, tl, 
                                  old, cur, nx, cbc, isrt, en, wc, res, gd, fc, 
                                  dc, newc, cidef, cifl, cn, bk, regs, kk, sci, 
-                                 ci, cac, fa, gps, stack >>
+                                 ci, cac, fa, gps, sigs, insig, oalive, gold, 
+                                 stack, ST, hheld, hent >>
 
 cr_len(self) == /\ pc[self] = "cr_len"
                 /\ IF cpulen = 0
@@ -1103,7 +1198,8 @@ cr_len(self) == /\ pc[self] = "cr_len"
                                 fin, bsnap, alive, uaf, errs, pci, opx, iv, pa, 
                                 hd, tl, old, cur, nx, cbc, isrt, en, ec, wc, 
                                 res, gd, fc, dc, newc, cidef, cifl, cn, bk, 
-                                regs, kk, sci, ci, cac, fa, gps, stack >>
+                                regs, kk, sci, ci, cac, fa, gps, sigs, insig, 
+                                oalive, gold, stack, ST, hheld, hent >>
 
 cr_pc(self) == /\ pc[self] = "cr_pc"
                /\ uaf' = (uaf \/ Dead("pcpu"))
@@ -1117,7 +1213,8 @@ cr_pc(self) == /\ pc[self] = "cr_pc"
                                fin, bsnap, alive, errs, pci, opx, iv, pa, hd, 
                                tl, old, cur, nx, cbc, isrt, en, ec, wc, res, 
                                gd, fc, dc, newc, cidef, cifl, cn, bk, regs, kk, 
-                               sci, ci, cac, fa, gps, stack >>
+                               sci, ci, cac, fa, gps, sigs, insig, oalive, 
+                               gold, stack, ST, hheld, hent >>
 
 cr_pcs(self) == /\ pc[self] = "cr_pcs"
                 /\ uaf' = (uaf \/ Dead((PSlot(mycpu[self]))))
@@ -1133,7 +1230,8 @@ cr_pcs(self) == /\ pc[self] = "cr_pcs"
                                 fin, bsnap, alive, errs, pci, opx, iv, pa, hd, 
                                 tl, old, cur, nx, cbc, isrt, en, wc, res, gd, 
                                 fc, dc, newc, cidef, cifl, cn, bk, regs, kk, 
-                                sci, ci, cac, fa, gps, stack >>
+                                sci, ci, cac, fa, gps, sigs, insig, oalive, 
+                                gold, stack, ST, hheld, hent >>
 
 cr_def(self) == /\ pc[self] = "cr_def"
                 /\ stack' = [stack EXCEPT ![self] = << [ procedure |->  "get_default",
@@ -1146,7 +1244,8 @@ cr_def(self) == /\ pc[self] = "cr_def"
                                 fin, bsnap, alive, uaf, errs, pci, opx, iv, pa, 
                                 hd, tl, old, cur, nx, cbc, isrt, en, ec, wc, 
                                 res, gd, fc, dc, newc, cidef, cifl, cn, bk, 
-                                regs, kk, sci, ci, cac, fa, gps >>
+                                regs, kk, sci, ci, cac, fa, gps, sigs, insig, 
+                                oalive, gold, ST, hheld, hent >>
 
 cr_got(self) == /\ pc[self] = "cr_got"
                 /\ ec' = [ec EXCEPT ![self] = gd[self]]
@@ -1162,7 +1261,8 @@ cr_got(self) == /\ pc[self] = "cr_got"
                                 bsnap, alive, uaf, errs, pci, opx, iv, pa, hd, 
                                 tl, old, cur, nx, cbc, isrt, wc, res, gd, fc, 
                                 dc, newc, cidef, cifl, cn, bk, regs, kk, sci, 
-                                ci, cac, fa, gps >>
+                                ci, cac, fa, gps, sigs, insig, oalive, gold, 
+                                ST, hheld, hent >>
 
 cr_enq(self) == /\ pc[self] = "cr_enq"
                 /\ en' = [en EXCEPT ![self] = cn[self]]
@@ -1177,7 +1277,8 @@ cr_enq(self) == /\ pc[self] = "cr_enq"
                                 bsnap, alive, uaf, errs, pci, opx, iv, pa, hd, 
                                 tl, old, cur, nx, cbc, isrt, ec, wc, res, gd, 
                                 fc, dc, newc, cidef, cifl, cn, bk, regs, kk, 
-                                sci, ci, cac, fa, gps >>
+                                sci, ci, cac, fa, gps, sigs, insig, oalive, 
+                                gold, ST, hheld, hent >>
 
 cr_unl(self) == /\ pc[self] = "cr_unl"
                 /\ IF "norlock" \notin Mut
@@ -1197,7 +1298,8 @@ cr_unl(self) == /\ pc[self] = "cr_unl"
                                 alive, uaf, errs, pci, opx, iv, pa, hd, tl, 
                                 old, cur, nx, cbc, isrt, en, ec, wc, res, gd, 
                                 fc, dc, newc, cidef, cifl, cn, bk, regs, kk, 
-                                sci, ci, cac, fa, gps >>
+                                sci, ci, cac, fa, gps, sigs, insig, oalive, 
+                                gold, ST, hheld, hent >>
 
 call_rcu(self) == cr_lock(self) \/ cr_len(self) \/ cr_pc(self)
                      \/ cr_pcs(self) \/ cr_def(self) \/ cr_got(self)
@@ -1216,7 +1318,8 @@ sc_lock(self) == /\ pc[self] = "sc_lock"
                                  bsnap, alive, uaf, errs, pci, opx, iv, pa, hd, 
                                  tl, old, cur, nx, cbc, isrt, en, ec, wc, res, 
                                  gd, fc, dc, newc, cidef, cifl, cn, bk, regs, 
-                                 kk, sci, ci, cac, fa, gps, stack >>
+                                 kk, sci, ci, cac, fa, gps, sigs, insig, 
+                                 oalive, gold, stack, ST, hheld, hent >>
 
 sc_len(self) == /\ pc[self] = "sc_len"
                 /\ cpulen' = NCpu
@@ -1227,7 +1330,8 @@ sc_len(self) == /\ pc[self] = "sc_len"
                                 bsnap, alive, uaf, errs, pci, opx, iv, pa, hd, 
                                 tl, old, cur, nx, cbc, isrt, en, ec, wc, res, 
                                 gd, fc, dc, newc, cidef, cifl, cn, bk, regs, 
-                                kk, sci, ci, cac, fa, gps, stack >>
+                                kk, sci, ci, cac, fa, gps, sigs, insig, oalive, 
+                                gold, stack, ST, hheld, hent >>
 
 sc_arr(self) == /\ pc[self] = "sc_arr"
                 /\ IF TSO
@@ -1245,7 +1349,8 @@ sc_arr(self) == /\ pc[self] = "sc_arr"
                                 alive, errs, pci, opx, iv, pa, hd, tl, old, 
                                 cur, nx, cbc, isrt, en, ec, wc, res, gd, fc, 
                                 dc, newc, cidef, cifl, cn, bk, regs, kk, sci, 
-                                ci, cac, fa, gps, stack >>
+                                ci, cac, fa, gps, sigs, insig, oalive, gold, 
+                                stack, ST, hheld, hent >>
 
 sc_chk(self) == /\ pc[self] = "sc_chk"
                 /\ IF Rd(self, PSlot(sci[self])) # NULL /\ en[self] # NULL
@@ -1259,7 +1364,8 @@ sc_chk(self) == /\ pc[self] = "sc_chk"
                                 fin, bsnap, alive, uaf, errs, pci, opx, iv, pa, 
                                 hd, tl, old, cur, nx, cbc, isrt, en, ec, wc, 
                                 gd, fc, dc, newc, cidef, cifl, cn, bk, regs, 
-                                kk, sci, ci, cac, fa, gps, stack >>
+                                kk, sci, ci, cac, fa, gps, sigs, insig, oalive, 
+                                gold, stack, ST, hheld, hent >>
 
 sc_st(self) == /\ pc[self] = "sc_st"
                /\ IF TSO
@@ -1278,7 +1384,8 @@ sc_st(self) == /\ pc[self] = "sc_st"
                                errs, pci, opx, iv, pa, hd, tl, old, cur, nx, 
                                cbc, isrt, en, ec, wc, gd, fc, dc, newc, cidef, 
                                cifl, cn, bk, regs, kk, sci, ci, cac, fa, gps, 
-                               stack >>
+                               sigs, insig, oalive, gold, stack, ST, hheld, 
+                               hent >>
 
 sc_unl(self) == /\ pc[self] = "sc_unl"
                 /\ Drained(self)
@@ -1292,7 +1399,8 @@ sc_unl(self) == /\ pc[self] = "sc_unl"
                                 bsnap, alive, uaf, errs, pci, opx, iv, pa, hd, 
                                 tl, old, cur, nx, cbc, isrt, en, ec, wc, res, 
                                 gd, fc, dc, newc, cidef, cifl, cn, bk, regs, 
-                                kk, sci, ci, cac, fa, gps >>
+                                kk, sci, ci, cac, fa, gps, sigs, insig, oalive, 
+                                gold, ST, hheld, hent >>
 
 set_cpu(self) == sc_lock(self) \/ sc_len(self) \/ sc_arr(self)
                     \/ sc_chk(self) \/ sc_st(self) \/ sc_unl(self)
@@ -1309,7 +1417,8 @@ f_chk(self) == /\ pc[self] = "f_chk"
                                fin, bsnap, alive, uaf, errs, pci, opx, iv, pa, 
                                hd, tl, old, cur, nx, cbc, isrt, en, ec, wc, 
                                res, gd, fc, dc, newc, cidef, cifl, cn, bk, 
-                               regs, kk, sci, ci, cac, fa, gps >>
+                               regs, kk, sci, ci, cac, fa, gps, sigs, insig, 
+                               oalive, gold, ST, hheld, hent >>
 
 f_ld(self) == /\ pc[self] = "f_ld"
               /\ uaf' = (uaf \/ Dead((FlagsOf(fc[self]))))
@@ -1323,7 +1432,8 @@ f_ld(self) == /\ pc[self] = "f_ld"
                               alive, errs, pci, opx, iv, pa, hd, tl, old, cur, 
                               nx, cbc, isrt, en, ec, wc, res, gd, fc, dc, newc, 
                               cidef, cifl, cn, bk, regs, kk, sci, ci, cac, fa, 
-                              gps, stack >>
+                              gps, sigs, insig, oalive, gold, stack, ST, hheld, 
+                              hent >>
 
 f_or(self) == /\ pc[self] = "f_or"
               /\ Drained(self)
@@ -1341,7 +1451,7 @@ f_or(self) == /\ pc[self] = "f_or"
                               alive, errs, pci, opx, iv, pa, hd, tl, old, cur, 
                               nx, cbc, isrt, en, ec, res, gd, fc, dc, newc, 
                               cidef, cifl, cn, bk, regs, kk, sci, ci, cac, fa, 
-                              gps >>
+                              gps, sigs, insig, oalive, gold, ST, hheld, hent >>
 
 f_wait(self) == /\ pc[self] = "f_wait"
                 /\ uaf' = (uaf \/ Dead((FlagsOf(fc[self]))))
@@ -1355,7 +1465,8 @@ f_wait(self) == /\ pc[self] = "f_wait"
                                 fin, bsnap, alive, errs, pci, opx, iv, pa, hd, 
                                 tl, old, cur, nx, cbc, isrt, en, ec, wc, res, 
                                 gd, fc, dc, newc, cidef, cifl, cn, bk, regs, 
-                                kk, sci, ci, cac, fa, gps, stack >>
+                                kk, sci, ci, cac, fa, gps, sigs, insig, oalive, 
+                                gold, stack, ST, hheld, hent >>
 
 f_lock(self) == /\ pc[self] = "f_lock"
                 /\ Drained(self) /\ lock = "free"
@@ -1368,7 +1479,8 @@ f_lock(self) == /\ pc[self] = "f_lock"
                                 bsnap, alive, uaf, errs, pci, opx, iv, pa, hd, 
                                 tl, old, cur, nx, cbc, isrt, en, ec, wc, res, 
                                 gd, fc, dc, newc, cidef, cifl, cn, bk, regs, 
-                                kk, sci, ci, cac, fa, gps, stack >>
+                                kk, sci, ci, cac, fa, gps, sigs, insig, oalive, 
+                                gold, stack, ST, hheld, hent >>
 
 f_e1(self) == /\ pc[self] = "f_e1"
               /\ uaf' = (uaf \/ Dead((NextOf(Hd(fc[self])))))
@@ -1384,7 +1496,8 @@ f_e1(self) == /\ pc[self] = "f_e1"
                               alive, errs, pci, opx, iv, pa, hd, tl, old, cur, 
                               nx, cbc, isrt, en, ec, wc, res, gd, fc, dc, newc, 
                               cidef, cifl, cn, bk, regs, kk, sci, ci, cac, fa, 
-                              gps, stack >>
+                              gps, sigs, insig, oalive, gold, stack, ST, hheld, 
+                              hent >>
 
 f_e2(self) == /\ pc[self] = "f_e2"
               /\ uaf' = (uaf \/ Dead((TailOf(fc[self]))))
@@ -1398,7 +1511,8 @@ f_e2(self) == /\ pc[self] = "f_e2"
                               alive, errs, pci, opx, iv, pa, hd, tl, old, cur, 
                               nx, cbc, isrt, en, ec, wc, res, gd, fc, dc, newc, 
                               cidef, cifl, cn, bk, regs, kk, sci, ci, cac, fa, 
-                              gps, stack >>
+                              gps, sigs, insig, oalive, gold, stack, ST, hheld, 
+                              hent >>
 
 f_unl1(self) == /\ pc[self] = "f_unl1"
                 /\ Drained(self)
@@ -1414,7 +1528,8 @@ f_unl1(self) == /\ pc[self] = "f_unl1"
                                 bsnap, alive, uaf, errs, pci, opx, iv, pa, hd, 
                                 tl, old, cur, nx, cbc, isrt, en, ec, wc, res, 
                                 gd, fc, dc, newc, cidef, cifl, cn, bk, regs, 
-                                kk, sci, ci, cac, fa, gps >>
+                                kk, sci, ci, cac, fa, gps, sigs, insig, oalive, 
+                                gold, ST, hheld, hent >>
 
 f_lock2(self) == /\ pc[self] = "f_lock2"
                  /\ Drained(self) /\ lock = "free"
@@ -1428,7 +1543,8 @@ f_lock2(self) == /\ pc[self] = "f_lock2"
                                  bsnap, alive, uaf, errs, pci, opx, iv, pa, hd, 
                                  tl, old, cur, nx, cbc, isrt, en, ec, wc, res, 
                                  gd, fc, newc, cidef, cifl, cn, bk, regs, kk, 
-                                 sci, ci, cac, fa, gps, stack >>
+                                 sci, ci, cac, fa, gps, sigs, insig, oalive, 
+                                 gold, stack, ST, hheld, hent >>
 
 fs_e1(self) == /\ pc[self] = "fs_e1"
                /\ uaf' = (uaf \/ Dead((NextOf(Hd(fc[self])))))
@@ -1442,7 +1558,8 @@ fs_e1(self) == /\ pc[self] = "fs_e1"
                                fin, bsnap, alive, errs, pci, opx, iv, pa, hd, 
                                tl, old, cur, nx, cbc, isrt, en, ec, wc, res, 
                                gd, fc, dc, newc, cidef, cifl, cn, bk, regs, kk, 
-                               sci, ci, cac, fa, gps, stack >>
+                               sci, ci, cac, fa, gps, sigs, insig, oalive, 
+                               gold, stack, ST, hheld, hent >>
 
 fs_e2(self) == /\ pc[self] = "fs_e2"
                /\ uaf' = (uaf \/ Dead((TailOf(fc[self]))))
@@ -1456,7 +1573,8 @@ fs_e2(self) == /\ pc[self] = "fs_e2"
                                fin, bsnap, alive, errs, pci, opx, iv, pa, hd, 
                                tl, old, cur, nx, cbc, isrt, en, ec, wc, res, 
                                gd, fc, dc, newc, cidef, cifl, cn, bk, regs, kk, 
-                               sci, ci, cac, fa, gps, stack >>
+                               sci, ci, cac, fa, gps, sigs, insig, oalive, 
+                               gold, stack, ST, hheld, hent >>
 
 fs_xh(self) == /\ pc[self] = "fs_xh"
                /\ Drained(self)
@@ -1473,7 +1591,8 @@ fs_xh(self) == /\ pc[self] = "fs_xh"
                                alive, errs, pci, opx, iv, pa, tl, old, cur, nx, 
                                cbc, isrt, en, ec, wc, res, gd, fc, dc, newc, 
                                cidef, cifl, cn, bk, regs, kk, sci, ci, cac, fa, 
-                               gps, stack >>
+                               gps, sigs, insig, oalive, gold, stack, ST, 
+                               hheld, hent >>
 
 fs_lt(self) == /\ pc[self] = "fs_lt"
                /\ uaf' = (uaf \/ Dead((TailOf(fc[self]))))
@@ -1487,7 +1606,8 @@ fs_lt(self) == /\ pc[self] = "fs_lt"
                                fin, bsnap, alive, errs, pci, opx, iv, pa, hd, 
                                tl, old, cur, nx, cbc, isrt, en, ec, wc, res, 
                                gd, fc, dc, newc, cidef, cifl, cn, bk, regs, kk, 
-                               sci, ci, cac, fa, gps, stack >>
+                               sci, ci, cac, fa, gps, sigs, insig, oalive, 
+                               gold, stack, ST, hheld, hent >>
 
 fs_mb(self) == /\ pc[self] = "fs_mb"
                /\ Drained(self)
@@ -1499,7 +1619,8 @@ fs_mb(self) == /\ pc[self] = "fs_mb"
                                fin, bsnap, alive, uaf, errs, pci, opx, iv, pa, 
                                hd, tl, old, cur, nx, cbc, isrt, en, ec, wc, 
                                res, gd, fc, dc, newc, cidef, cifl, cn, bk, 
-                               regs, kk, sci, ci, cac, fa, gps, stack >>
+                               regs, kk, sci, ci, cac, fa, gps, sigs, insig, 
+                               oalive, gold, stack, ST, hheld, hent >>
 
 fs_xt(self) == /\ pc[self] = "fs_xt"
                /\ Drained(self)
@@ -1514,7 +1635,8 @@ fs_xt(self) == /\ pc[self] = "fs_xt"
                                alive, errs, pci, opx, iv, pa, hd, old, cur, nx, 
                                cbc, isrt, en, ec, wc, res, gd, fc, dc, newc, 
                                cidef, cifl, cn, bk, regs, kk, sci, ci, cac, fa, 
-                               gps, stack >>
+                               gps, sigs, insig, oalive, gold, stack, ST, 
+                               hheld, hent >>
 
 fs_ax(self) == /\ pc[self] = "fs_ax"
                /\ Drained(self)
@@ -1529,7 +1651,8 @@ fs_ax(self) == /\ pc[self] = "fs_ax"
                                alive, errs, pci, opx, iv, pa, hd, tl, cur, nx, 
                                cbc, isrt, en, ec, wc, res, gd, fc, dc, newc, 
                                cidef, cifl, cn, bk, regs, kk, sci, ci, cac, fa, 
-                               gps, stack >>
+                               gps, sigs, insig, oalive, gold, stack, ST, 
+                               hheld, hent >>
 
 fs_al(self) == /\ pc[self] = "fs_al"
                /\ IF TSO
@@ -1549,7 +1672,8 @@ fs_al(self) == /\ pc[self] = "fs_al"
                                cs, ncs, cnt, snap, queued, fin, bsnap, alive, 
                                errs, pci, opx, iv, pa, cur, nx, cbc, isrt, en, 
                                ec, wc, res, gd, fc, dc, newc, cidef, cifl, cn, 
-                               bk, regs, kk, sci, ci, cac, fa, gps, stack >>
+                               bk, regs, kk, sci, ci, cac, fa, gps, sigs, 
+                               insig, oalive, gold, stack, ST, hheld, hent >>
 
 f_ldq(self) == /\ pc[self] = "f_ldq"
                /\ iv' = [iv EXCEPT ![self] = Rd(self, (QlenOf(fc[self])))]
@@ -1562,7 +1686,8 @@ f_ldq(self) == /\ pc[self] = "f_ldq"
                                fin, bsnap, alive, errs, pci, opx, pa, hd, tl, 
                                old, cur, nx, cbc, isrt, en, ec, wc, res, gd, 
                                fc, dc, newc, cidef, cifl, cn, bk, regs, kk, 
-                               sci, ci, cac, fa, gps, stack >>
+                               sci, ci, cac, fa, gps, sigs, insig, oalive, 
+                               gold, stack, ST, hheld, hent >>
 
 f_add(self) == /\ pc[self] = "f_add"
                /\ Drained(self)
@@ -1580,7 +1705,8 @@ f_add(self) == /\ pc[self] = "f_add"
                                rnest, cs, ncs, cnt, snap, queued, fin, bsnap, 
                                alive, errs, pci, opx, pa, hd, tl, old, cur, nx, 
                                cbc, isrt, en, ec, res, gd, fc, dc, newc, cidef, 
-                               cifl, cn, bk, regs, kk, sci, ci, cac, fa, gps >>
+                               cifl, cn, bk, regs, kk, sci, ci, cac, fa, gps, 
+                               sigs, insig, oalive, gold, ST, hheld, hent >>
 
 f_unl2(self) == /\ pc[self] = "f_unl2"
                 /\ crlist' = Without(crlist, fc[self])
@@ -1594,7 +1720,8 @@ f_unl2(self) == /\ pc[self] = "f_unl2"
                                 alive, uaf, errs, pci, opx, iv, pa, hd, tl, 
                                 old, cur, nx, cbc, isrt, en, ec, wc, res, gd, 
                                 fc, dc, newc, cidef, cifl, cn, bk, regs, kk, 
-                                sci, ci, cac, fa, gps, stack >>
+                                sci, ci, cac, fa, gps, sigs, insig, oalive, 
+                                gold, stack, ST, hheld, hent >>
 
 f_join(self) == /\ pc[self] = "f_join"
                 /\ pc[HOf[fc[self]]] = "Done"
@@ -1606,7 +1733,8 @@ f_join(self) == /\ pc[self] = "f_join"
                                 fin, bsnap, alive, uaf, errs, pci, opx, iv, pa, 
                                 hd, tl, old, cur, nx, cbc, isrt, en, ec, wc, 
                                 res, gd, fc, dc, newc, cidef, cifl, cn, bk, 
-                                regs, kk, sci, ci, cac, fa, gps, stack >>
+                                regs, kk, sci, ci, cac, fa, gps, sigs, insig, 
+                                oalive, gold, stack, ST, hheld, hent >>
 
 f_free(self) == /\ pc[self] = "f_free"
                 /\ IF alive[fc[self]] # "yes"
@@ -1623,7 +1751,8 @@ f_free(self) == /\ pc[self] = "f_free"
                                 fin, bsnap, uaf, pci, opx, iv, pa, hd, tl, old, 
                                 cur, nx, cbc, isrt, en, ec, wc, res, gd, fc, 
                                 dc, newc, cidef, cifl, cn, bk, regs, kk, sci, 
-                                ci, cac, fa, gps >>
+                                ci, cac, fa, gps, sigs, insig, oalive, gold, 
+                                ST, hheld, hent >>
 
 data_free(self) == f_chk(self) \/ f_ld(self) \/ f_or(self) \/ f_wait(self)
                       \/ f_lock(self) \/ f_e1(self) \/ f_e2(self)
@@ -1646,7 +1775,8 @@ ca_lock(self) == /\ pc[self] = "ca_lock"
                                  bsnap, alive, uaf, errs, pci, opx, iv, pa, hd, 
                                  tl, old, cur, nx, cbc, isrt, en, ec, wc, res, 
                                  gd, fc, dc, newc, cidef, cifl, cn, bk, regs, 
-                                 kk, sci, ci, cac, fa, gps, stack >>
+                                 kk, sci, ci, cac, fa, gps, sigs, insig, 
+                                 oalive, gold, stack, ST, hheld, hent >>
 
 ca_len(self) == /\ pc[self] = "ca_len"
                 /\ cpulen' = NCpu
@@ -1657,7 +1787,8 @@ ca_len(self) == /\ pc[self] = "ca_len"
                                 bsnap, alive, uaf, errs, pci, opx, iv, pa, hd, 
                                 tl, old, cur, nx, cbc, isrt, en, ec, wc, res, 
                                 gd, fc, dc, newc, cidef, cifl, cn, bk, regs, 
-                                kk, sci, ci, cac, fa, gps, stack >>
+                                kk, sci, ci, cac, fa, gps, sigs, insig, oalive, 
+                                gold, stack, ST, hheld, hent >>
 
 ca_arr(self) == /\ pc[self] = "ca_arr"
                 /\ IF TSO
@@ -1675,7 +1806,8 @@ ca_arr(self) == /\ pc[self] = "ca_arr"
                                 alive, errs, pci, opx, iv, pa, hd, tl, old, 
                                 cur, nx, cbc, isrt, en, ec, wc, res, gd, fc, 
                                 dc, newc, cidef, cifl, cn, bk, regs, kk, sci, 
-                                ci, cac, fa, gps, stack >>
+                                ci, cac, fa, gps, sigs, insig, oalive, gold, 
+                                stack, ST, hheld, hent >>
 
 ca_unl(self) == /\ pc[self] = "ca_unl"
                 /\ Drained(self)
@@ -1689,7 +1821,8 @@ ca_unl(self) == /\ pc[self] = "ca_unl"
                                 bsnap, alive, uaf, errs, pci, opx, iv, pa, hd, 
                                 tl, old, cur, nx, cbc, isrt, en, ec, wc, res, 
                                 gd, fc, dc, newc, cidef, cifl, cn, bk, regs, 
-                                kk, sci, cac, fa, gps, stack >>
+                                kk, sci, cac, fa, gps, sigs, insig, oalive, 
+                                gold, stack, ST, hheld, hent >>
 
 ca_top(self) == /\ pc[self] = "ca_top"
                 /\ IF ci[self] >= NCpu
@@ -1704,7 +1837,8 @@ ca_top(self) == /\ pc[self] = "ca_top"
                                 fin, bsnap, alive, uaf, errs, pci, opx, iv, pa, 
                                 hd, tl, old, cur, nx, cbc, isrt, en, ec, wc, 
                                 gd, fc, dc, newc, cidef, cifl, cn, bk, regs, 
-                                kk, sci, ci, cac, fa, gps >>
+                                kk, sci, ci, cac, fa, gps, sigs, insig, oalive, 
+                                gold, ST, hheld, hent >>
 
 ca_lk(self) == /\ pc[self] = "ca_lk"
                /\ Drained(self) /\ lock = "free"
@@ -1717,7 +1851,8 @@ ca_lk(self) == /\ pc[self] = "ca_lk"
                                alive, uaf, errs, pci, opx, iv, pa, hd, tl, old, 
                                cur, nx, cbc, isrt, en, ec, wc, res, gd, fc, dc, 
                                newc, cidef, cifl, cn, bk, regs, kk, sci, ci, 
-                               cac, fa, gps, stack >>
+                               cac, fa, gps, sigs, insig, oalive, gold, stack, 
+                               ST, hheld, hent >>
 
 ca_g1(self) == /\ pc[self] = "ca_g1"
                /\ uaf' = (uaf \/ Dead("pcpu"))
@@ -1729,7 +1864,8 @@ ca_g1(self) == /\ pc[self] = "ca_g1"
                                fin, bsnap, alive, errs, pci, opx, iv, pa, hd, 
                                tl, old, cur, nx, cbc, isrt, en, ec, wc, res, 
                                gd, fc, dc, newc, cidef, cifl, cn, bk, regs, kk, 
-                               sci, ci, cac, fa, gps, stack >>
+                               sci, ci, cac, fa, gps, sigs, insig, oalive, 
+                               gold, stack, ST, hheld, hent >>
 
 ca_g2(self) == /\ pc[self] = "ca_g2"
                /\ uaf' = (uaf \/ Dead((PSlot(ci[self]))))
@@ -1749,7 +1885,8 @@ ca_g2(self) == /\ pc[self] = "ca_g2"
                                fin, bsnap, alive, errs, pci, opx, iv, pa, hd, 
                                tl, old, cur, nx, cbc, isrt, en, ec, wc, res, 
                                gd, fc, dc, newc, cn, bk, regs, kk, sci, ci, 
-                               cac, fa, gps >>
+                               cac, fa, gps, sigs, insig, oalive, gold, ST, 
+                               hheld, hent >>
 
 ca_cu(self) == /\ pc[self] = "ca_cu"
                /\ Drained(self)
@@ -1768,7 +1905,7 @@ ca_cu(self) == /\ pc[self] = "ca_cu"
                                alive, uaf, errs, pci, opx, iv, pa, hd, tl, old, 
                                cur, nx, cbc, isrt, ec, wc, res, gd, fc, dc, 
                                newc, cidef, cifl, cn, bk, regs, kk, ci, fa, 
-                               gps >>
+                               gps, sigs, insig, oalive, gold, ST, hheld, hent >>
 
 ca_chk(self) == /\ pc[self] = "ca_chk"
                 /\ IF res[self] = "EEXIST"
@@ -1785,7 +1922,8 @@ ca_chk(self) == /\ pc[self] = "ca_chk"
                                 fin, bsnap, alive, uaf, errs, pci, opx, iv, pa, 
                                 hd, tl, old, cur, nx, cbc, isrt, en, ec, wc, 
                                 res, gd, dc, newc, cidef, cifl, cn, bk, regs, 
-                                kk, sci, ci, cac, fa, gps >>
+                                kk, sci, ci, cac, fa, gps, sigs, insig, oalive, 
+                                gold, ST, hheld, hent >>
 
 ca_nx(self) == /\ pc[self] = "ca_nx"
                /\ ci' = [ci EXCEPT ![self] = ci[self] + 1]
@@ -1797,7 +1935,8 @@ ca_nx(self) == /\ pc[self] = "ca_nx"
                                fin, bsnap, alive, uaf, errs, pci, opx, iv, pa, 
                                hd, tl, old, cur, nx, cbc, isrt, en, ec, wc, 
                                res, gd, fc, dc, newc, cidef, cifl, cn, bk, 
-                               regs, kk, sci, fa, gps, stack >>
+                               regs, kk, sci, fa, gps, sigs, insig, oalive, 
+                               gold, stack, ST, hheld, hent >>
 
 ca_skip(self) == /\ pc[self] = "ca_skip"
                  /\ Drained(self)
@@ -1811,7 +1950,8 @@ ca_skip(self) == /\ pc[self] = "ca_skip"
                                  bsnap, alive, uaf, errs, pci, opx, iv, pa, hd, 
                                  tl, old, cur, nx, cbc, isrt, en, ec, wc, res, 
                                  gd, fc, dc, newc, cidef, cifl, cn, bk, regs, 
-                                 kk, sci, cac, fa, gps, stack >>
+                                 kk, sci, cac, fa, gps, sigs, insig, oalive, 
+                                 gold, stack, ST, hheld, hent >>
 
 create_all(self) == ca_lock(self) \/ ca_len(self) \/ ca_arr(self)
                        \/ ca_unl(self) \/ ca_top(self) \/ ca_lk(self)
@@ -1833,7 +1973,8 @@ fa_len(self) == /\ pc[self] = "fa_len"
                                 fin, bsnap, alive, uaf, errs, pci, opx, iv, pa, 
                                 hd, tl, old, cur, nx, cbc, isrt, en, ec, wc, 
                                 gd, fc, dc, newc, cidef, cifl, cn, bk, regs, 
-                                kk, sci, cac, fa, gps >>
+                                kk, sci, cac, fa, gps, sigs, insig, oalive, 
+                                gold, ST, hheld, hent >>
 
 fa_top(self) == /\ pc[self] = "fa_top"
                 /\ IF ci[self] >= NCpu
@@ -1845,7 +1986,8 @@ fa_top(self) == /\ pc[self] = "fa_top"
                                 fin, bsnap, alive, uaf, errs, pci, opx, iv, pa, 
                                 hd, tl, old, cur, nx, cbc, isrt, en, ec, wc, 
                                 res, gd, fc, dc, newc, cidef, cifl, cn, bk, 
-                                regs, kk, sci, ci, cac, fa, gps, stack >>
+                                regs, kk, sci, ci, cac, fa, gps, sigs, insig, 
+                                oalive, gold, stack, ST, hheld, hent >>
 
 fa_g1(self) == /\ pc[self] = "fa_g1"
                /\ uaf' = (uaf \/ Dead("pcpu"))
@@ -1859,7 +2001,8 @@ fa_g1(self) == /\ pc[self] = "fa_g1"
                                fin, bsnap, alive, errs, pci, opx, iv, pa, hd, 
                                tl, old, cur, nx, cbc, isrt, en, ec, wc, res, 
                                gd, fc, dc, newc, cidef, cifl, cn, bk, regs, kk, 
-                               sci, ci, cac, fa, gps, stack >>
+                               sci, ci, cac, fa, gps, sigs, insig, oalive, 
+                               gold, stack, ST, hheld, hent >>
 
 fa_g2(self) == /\ pc[self] = "fa_g2"
                /\ uaf' = (uaf \/ Dead((PSlot(ci[self]))))
@@ -1880,7 +2023,8 @@ fa_g2(self) == /\ pc[self] = "fa_g2"
                                fin, bsnap, alive, errs, pci, opx, iv, pa, hd, 
                                tl, old, cur, nx, cbc, isrt, ec, wc, res, gd, 
                                fc, dc, newc, cidef, cifl, cn, bk, regs, kk, ci, 
-                               cac, gps >>
+                               cac, gps, sigs, insig, oalive, gold, ST, hheld, 
+                               hent >>
 
 fa_nx(self) == /\ pc[self] = "fa_nx"
                /\ ci' = [ci EXCEPT ![self] = ci[self] + 1]
@@ -1891,7 +2035,8 @@ fa_nx(self) == /\ pc[self] = "fa_nx"
                                fin, bsnap, alive, uaf, errs, pci, opx, iv, pa, 
                                hd, tl, old, cur, nx, cbc, isrt, en, ec, wc, 
                                res, gd, fc, dc, newc, cidef, cifl, cn, bk, 
-                               regs, kk, sci, cac, fa, gps, stack >>
+                               regs, kk, sci, cac, fa, gps, sigs, insig, 
+                               oalive, gold, stack, ST, hheld, hent >>
 
 fa_sync(self) == /\ pc[self] = "fa_sync"
                  /\ IF "nofasync" \notin Mut
@@ -1907,7 +2052,8 @@ fa_sync(self) == /\ pc[self] = "fa_sync"
                                  fin, bsnap, alive, uaf, errs, pci, opx, iv, 
                                  pa, hd, tl, old, cur, nx, cbc, isrt, en, ec, 
                                  wc, res, gd, fc, dc, newc, cidef, cifl, cn, 
-                                 bk, regs, kk, sci, ci, cac, fa, gps >>
+                                 bk, regs, kk, sci, ci, cac, fa, gps, sigs, 
+                                 insig, oalive, gold, ST, hheld, hent >>
 
 fa_f0(self) == /\ pc[self] = "fa_f0"
                /\ ci' = [ci EXCEPT ![self] = 0]
@@ -1918,7 +2064,8 @@ fa_f0(self) == /\ pc[self] = "fa_f0"
                                fin, bsnap, alive, uaf, errs, pci, opx, iv, pa, 
                                hd, tl, old, cur, nx, cbc, isrt, en, ec, wc, 
                                res, gd, fc, dc, newc, cidef, cifl, cn, bk, 
-                               regs, kk, sci, cac, fa, gps, stack >>
+                               regs, kk, sci, cac, fa, gps, sigs, insig, 
+                               oalive, gold, stack, ST, hheld, hent >>
 
 fa_ftop(self) == /\ pc[self] = "fa_ftop"
                  /\ IF ci[self] >= NCpu
@@ -1934,7 +2081,8 @@ fa_ftop(self) == /\ pc[self] = "fa_ftop"
                                  fin, bsnap, alive, uaf, errs, pci, opx, iv, 
                                  pa, hd, tl, old, cur, nx, cbc, isrt, en, ec, 
                                  wc, gd, fc, dc, newc, cidef, cifl, cn, bk, 
-                                 regs, kk, sci, ci, cac, gps >>
+                                 regs, kk, sci, ci, cac, gps, sigs, insig, 
+                                 oalive, gold, ST, hheld, hent >>
 
 fa_fchk(self) == /\ pc[self] = "fa_fchk"
                  /\ IF fa[self][ci[self]] = NULL
@@ -1951,7 +2099,8 @@ fa_fchk(self) == /\ pc[self] = "fa_fchk"
                                  fin, bsnap, alive, uaf, errs, pci, opx, iv, 
                                  pa, hd, tl, old, cur, nx, cbc, isrt, en, ec, 
                                  wc, res, gd, dc, newc, cidef, cifl, cn, bk, 
-                                 regs, kk, sci, ci, cac, fa, gps >>
+                                 regs, kk, sci, ci, cac, fa, gps, sigs, insig, 
+                                 oalive, gold, ST, hheld, hent >>
 
 fa_fnx(self) == /\ pc[self] = "fa_fnx"
                 /\ ci' = [ci EXCEPT ![self] = ci[self] + 1]
@@ -1962,7 +2111,8 @@ fa_fnx(self) == /\ pc[self] = "fa_fnx"
                                 fin, bsnap, alive, uaf, errs, pci, opx, iv, pa, 
                                 hd, tl, old, cur, nx, cbc, isrt, en, ec, wc, 
                                 res, gd, fc, dc, newc, cidef, cifl, cn, bk, 
-                                regs, kk, sci, cac, fa, gps, stack >>
+                                regs, kk, sci, cac, fa, gps, sigs, insig, 
+                                oalive, gold, stack, ST, hheld, hent >>
 
 free_all(self) == fa_len(self) \/ fa_top(self) \/ fa_g1(self)
                      \/ fa_g2(self) \/ fa_nx(self) \/ fa_sync(self)
@@ -1983,7 +2133,8 @@ bc_sub(self) == /\ pc[self] = "bc_sub"
                                 bsnap, alive, errs, pci, opx, iv, pa, hd, tl, 
                                 old, cur, nx, cbc, isrt, en, ec, wc, res, gd, 
                                 fc, dc, newc, cidef, cifl, cn, bk, regs, kk, 
-                                sci, ci, cac, fa, gps, stack >>
+                                sci, ci, cac, fa, gps, sigs, insig, oalive, 
+                                gold, stack, ST, hheld, hent >>
 
 bc_mb(self) == /\ pc[self] = "bc_mb"
                /\ Drained(self)
@@ -1995,7 +2146,8 @@ bc_mb(self) == /\ pc[self] = "bc_mb"
                                fin, bsnap, alive, uaf, errs, pci, opx, iv, pa, 
                                hd, tl, old, cur, nx, cbc, isrt, en, ec, wc, 
                                res, gd, fc, dc, newc, cidef, cifl, cn, bk, 
-                               regs, kk, sci, ci, cac, fa, gps, stack >>
+                               regs, kk, sci, ci, cac, fa, gps, sigs, insig, 
+                               oalive, gold, stack, ST, hheld, hent >>
 
 bc_ld(self) == /\ pc[self] = "bc_ld"
                /\ uaf' = (uaf \/ Dead((FutexOf(bk[self]))))
@@ -2009,7 +2161,8 @@ bc_ld(self) == /\ pc[self] = "bc_ld"
                                fin, bsnap, alive, errs, pci, opx, iv, pa, hd, 
                                tl, old, cur, nx, cbc, isrt, en, ec, wc, res, 
                                gd, fc, dc, newc, cidef, cifl, cn, bk, regs, kk, 
-                               sci, ci, cac, fa, gps, stack >>
+                               sci, ci, cac, fa, gps, sigs, insig, oalive, 
+                               gold, stack, ST, hheld, hent >>
 
 bc_st(self) == /\ pc[self] = "bc_st"
                /\ IF TSO
@@ -2027,7 +2180,8 @@ bc_st(self) == /\ pc[self] = "bc_st"
                                errs, pci, opx, iv, pa, hd, tl, old, cur, nx, 
                                cbc, isrt, en, ec, wc, res, gd, fc, dc, newc, 
                                cidef, cifl, cn, bk, regs, kk, sci, ci, cac, fa, 
-                               gps, stack >>
+                               gps, sigs, insig, oalive, gold, stack, ST, 
+                               hheld, hent >>
 
 bc_fw(self) == /\ pc[self] = "bc_fw"
                /\ Drained(self)
@@ -2041,7 +2195,8 @@ bc_fw(self) == /\ pc[self] = "bc_fw"
                                errs, pci, opx, iv, pa, hd, tl, old, cur, nx, 
                                cbc, isrt, en, ec, wc, res, gd, fc, dc, newc, 
                                cidef, cifl, cn, bk, regs, kk, sci, ci, cac, fa, 
-                               gps, stack >>
+                               gps, sigs, insig, oalive, gold, stack, ST, 
+                               hheld, hent >>
 
 bc_put(self) == /\ pc[self] = "bc_put"
                 /\ Drained(self)
@@ -2057,7 +2212,8 @@ bc_put(self) == /\ pc[self] = "bc_put"
                                 bsnap, alive, errs, pci, opx, iv, pa, hd, tl, 
                                 old, cur, nx, cbc, isrt, en, ec, wc, res, gd, 
                                 fc, dc, newc, cidef, cifl, cn, bk, regs, kk, 
-                                sci, ci, cac, fa, gps, stack >>
+                                sci, ci, cac, fa, gps, sigs, insig, oalive, 
+                                gold, stack, ST, hheld, hent >>
 
 bc_frk(self) == /\ pc[self] = "bc_frk"
                 /\ IF alive[bk[self]] # "yes"
@@ -2073,7 +2229,8 @@ bc_frk(self) == /\ pc[self] = "bc_frk"
                                 fin, bsnap, uaf, pci, opx, iv, pa, hd, tl, old, 
                                 cur, nx, cbc, isrt, en, ec, wc, res, gd, fc, 
                                 dc, newc, cidef, cifl, cn, bk, regs, kk, sci, 
-                                ci, cac, fa, gps, stack >>
+                                ci, cac, fa, gps, sigs, insig, oalive, gold, 
+                                stack, ST, hheld, hent >>
 
 bc_frw(self) == /\ pc[self] = "bc_frw"
                 /\ alive' = [alive EXCEPT ![cur[self]] = "freed"]
@@ -2086,7 +2243,8 @@ bc_frw(self) == /\ pc[self] = "bc_frw"
                                 fin, bsnap, uaf, errs, pci, opx, iv, pa, hd, 
                                 tl, old, cur, nx, cbc, isrt, en, ec, wc, res, 
                                 gd, fc, dc, newc, cidef, cifl, cn, bk, regs, 
-                                kk, sci, ci, cac, fa, gps >>
+                                kk, sci, ci, cac, fa, gps, sigs, insig, oalive, 
+                                gold, ST, hheld, hent >>
 
 barrier_complete(self) == bc_sub(self) \/ bc_mb(self) \/ bc_ld(self)
                              \/ bc_st(self) \/ bc_fw(self) \/ bc_put(self)
@@ -2108,7 +2266,8 @@ b_lock(self) == /\ pc[self] = "b_lock"
                                 bsnap, alive, uaf, errs, pci, opx, iv, pa, hd, 
                                 tl, old, cur, nx, cbc, isrt, en, ec, wc, res, 
                                 gd, fc, dc, newc, cidef, cifl, cn, bk, sci, ci, 
-                                cac, fa, gps, stack >>
+                                cac, fa, gps, sigs, insig, oalive, gold, stack, 
+                                ST, hheld, hent >>
 
 b_ref(self) == /\ pc[self] = "b_ref"
                /\ IF TSO
@@ -2126,7 +2285,8 @@ b_ref(self) == /\ pc[self] = "b_ref"
                                errs, pci, opx, iv, pa, hd, tl, old, cur, nx, 
                                cbc, isrt, en, ec, wc, res, gd, fc, dc, newc, 
                                cidef, cifl, cn, bk, regs, kk, sci, ci, cac, fa, 
-                               gps, stack >>
+                               gps, sigs, insig, oalive, gold, stack, ST, 
+                               hheld, hent >>
 
 b_cnt(self) == /\ pc[self] = "b_cnt"
                /\ IF TSO /\ ~Tracing
@@ -2144,7 +2304,8 @@ b_cnt(self) == /\ pc[self] = "b_cnt"
                                alive, errs, pci, opx, iv, pa, hd, tl, old, cur, 
                                nx, cbc, isrt, en, ec, wc, res, gd, fc, dc, 
                                newc, cidef, cifl, cn, bk, regs, kk, sci, ci, 
-                               cac, fa, gps, stack >>
+                               cac, fa, gps, sigs, insig, oalive, gold, stack, 
+                               ST, hheld, hent >>
 
 b_loop(self) == /\ pc[self] = "b_loop"
                 /\ IF kk[self] <= Len(regs[self])
@@ -2165,7 +2326,8 @@ b_loop(self) == /\ pc[self] = "b_loop"
                                 bsnap, uaf, errs, pci, opx, iv, pa, hd, tl, 
                                 old, cur, nx, cbc, isrt, wc, res, gd, fc, dc, 
                                 newc, cidef, cifl, cn, bk, regs, sci, ci, cac, 
-                                fa, gps >>
+                                fa, gps, sigs, insig, oalive, gold, ST, hheld, 
+                                hent >>
 
 b_unl(self) == /\ pc[self] = "b_unl"
                /\ IF "nomutex" \notin Mut
@@ -2181,7 +2343,8 @@ b_unl(self) == /\ pc[self] = "b_unl"
                                alive, uaf, errs, pci, opx, iv, pa, hd, tl, old, 
                                cur, nx, cbc, isrt, en, ec, wc, res, gd, fc, dc, 
                                newc, cidef, cifl, cn, bk, regs, kk, sci, ci, 
-                               cac, fa, gps, stack >>
+                               cac, fa, gps, sigs, insig, oalive, gold, stack, 
+                               ST, hheld, hent >>
 
 b_dec(self) == /\ pc[self] = "b_dec"
                /\ Drained(self)
@@ -2195,7 +2358,8 @@ b_dec(self) == /\ pc[self] = "b_dec"
                                alive, errs, pci, opx, iv, pa, hd, tl, old, cur, 
                                nx, cbc, isrt, en, ec, wc, res, gd, fc, dc, 
                                newc, cidef, cifl, cn, bk, regs, kk, sci, ci, 
-                               cac, fa, gps, stack >>
+                               cac, fa, gps, sigs, insig, oalive, gold, stack, 
+                               ST, hheld, hent >>
 
 b_mb(self) == /\ pc[self] = "b_mb"
               /\ Drained(self)
@@ -2207,7 +2371,8 @@ b_mb(self) == /\ pc[self] = "b_mb"
                               alive, uaf, errs, pci, opx, iv, pa, hd, tl, old, 
                               cur, nx, cbc, isrt, en, ec, wc, res, gd, fc, dc, 
                               newc, cidef, cifl, cn, bk, regs, kk, sci, ci, 
-                              cac, fa, gps, stack >>
+                              cac, fa, gps, sigs, insig, oalive, gold, stack, 
+                              ST, hheld, hent >>
 
 b_ldc(self) == /\ pc[self] = "b_ldc"
                /\ uaf' = (uaf \/ Dead((CountOf(bk[self]))))
@@ -2221,7 +2386,8 @@ b_ldc(self) == /\ pc[self] = "b_ldc"
                                fin, bsnap, alive, errs, pci, opx, iv, pa, hd, 
                                tl, old, cur, nx, cbc, isrt, en, ec, wc, res, 
                                gd, fc, dc, newc, cidef, cifl, cn, bk, regs, kk, 
-                               sci, ci, cac, fa, gps, stack >>
+                               sci, ci, cac, fa, gps, sigs, insig, oalive, 
+                               gold, stack, ST, hheld, hent >>
 
 cw_mb(self) == /\ pc[self] = "cw_mb"
                /\ Drained(self)
@@ -2233,7 +2399,8 @@ cw_mb(self) == /\ pc[self] = "cw_mb"
                                fin, bsnap, alive, uaf, errs, pci, opx, iv, pa, 
                                hd, tl, old, cur, nx, cbc, isrt, en, ec, wc, 
                                res, gd, fc, dc, newc, cidef, cifl, cn, bk, 
-                               regs, kk, sci, ci, cac, fa, gps, stack >>
+                               regs, kk, sci, ci, cac, fa, gps, sigs, insig, 
+                               oalive, gold, stack, ST, hheld, hent >>
 
 cw_ld(self) == /\ pc[self] = "cw_ld"
                /\ uaf' = (uaf \/ Dead((FutexOf(bk[self]))))
@@ -2247,7 +2414,8 @@ cw_ld(self) == /\ pc[self] = "cw_ld"
                                fin, bsnap, alive, errs, pci, opx, iv, pa, hd, 
                                tl, old, cur, nx, cbc, isrt, en, ec, wc, res, 
                                gd, fc, dc, newc, cidef, cifl, cn, bk, regs, kk, 
-                               sci, ci, cac, fa, gps, stack >>
+                               sci, ci, cac, fa, gps, sigs, insig, oalive, 
+                               gold, stack, ST, hheld, hent >>
 
 cw_fwait(self) == /\ pc[self] = "cw_fwait"
                   /\ Drained(self)
@@ -2266,7 +2434,8 @@ cw_fwait(self) == /\ pc[self] = "cw_fwait"
                                   bsnap, alive, errs, pci, opx, iv, pa, hd, tl, 
                                   old, cur, nx, cbc, isrt, en, ec, wc, res, gd, 
                                   fc, dc, newc, cidef, cifl, cn, bk, regs, kk, 
-                                  sci, ci, cac, fa, gps, stack >>
+                                  sci, ci, cac, fa, gps, sigs, insig, oalive, 
+                                  gold, stack, ST, hheld, hent >>
 
 cw_fwoke(self) == /\ pc[self] = "cw_fwoke"
                   /\ self \notin fsleep
@@ -2279,7 +2448,8 @@ cw_fwoke(self) == /\ pc[self] = "cw_fwoke"
                                   bsnap, alive, uaf, errs, pci, opx, iv, pa, 
                                   hd, tl, old, cur, nx, cbc, isrt, en, ec, wc, 
                                   res, gd, fc, dc, newc, cidef, cifl, cn, bk, 
-                                  regs, kk, sci, ci, cac, fa, gps, stack >>
+                                  regs, kk, sci, ci, cac, fa, gps, sigs, insig, 
+                                  oalive, gold, stack, ST, hheld, hent >>
 
 b_put(self) == /\ pc[self] = "b_put"
                /\ Drained(self)
@@ -2297,7 +2467,8 @@ b_put(self) == /\ pc[self] = "b_put"
                                alive, errs, pci, opx, iv, pa, hd, tl, old, cur, 
                                nx, cbc, isrt, en, ec, wc, res, gd, fc, dc, 
                                newc, cidef, cifl, cn, bk, regs, kk, sci, ci, 
-                               cac, fa, gps >>
+                               cac, fa, gps, sigs, insig, oalive, gold, ST, 
+                               hheld, hent >>
 
 b_free(self) == /\ pc[self] = "b_free"
                 /\ IF alive[bk[self]] # "yes"
@@ -2314,7 +2485,8 @@ b_free(self) == /\ pc[self] = "b_free"
                                 fin, bsnap, uaf, pci, opx, iv, pa, hd, tl, old, 
                                 cur, nx, cbc, isrt, en, ec, wc, res, gd, fc, 
                                 dc, newc, cidef, cifl, cn, bk, regs, kk, sci, 
-                                ci, cac, fa, gps >>
+                                ci, cac, fa, gps, sigs, insig, oalive, gold, 
+                                ST, hheld, hent >>
 
 barrier(self) == b_lock(self) \/ b_ref(self) \/ b_cnt(self) \/ b_loop(self)
                     \/ b_unl(self) \/ b_dec(self) \/ b_mb(self)
@@ -2335,7 +2507,8 @@ bf_lock(self) == /\ pc[self] = "bf_lock"
                                  bsnap, alive, uaf, errs, pci, opx, iv, pa, hd, 
                                  tl, old, cur, nx, cbc, isrt, en, ec, wc, res, 
                                  gd, fc, dc, newc, cidef, cifl, cn, bk, sci, 
-                                 ci, cac, fa, gps, stack >>
+                                 ci, cac, fa, gps, sigs, insig, oalive, gold, 
+                                 stack, ST, hheld, hent >>
 
 bf_or(self) == /\ pc[self] = "bf_or"
                /\ IF kk[self] <= Len(regs[self])
@@ -2357,7 +2530,7 @@ bf_or(self) == /\ pc[self] = "bf_or"
                                alive, errs, pci, opx, iv, pa, hd, tl, old, cur, 
                                nx, cbc, isrt, en, ec, res, gd, fc, dc, newc, 
                                cidef, cifl, cn, bk, regs, sci, ci, cac, fa, 
-                               gps >>
+                               gps, sigs, insig, oalive, gold, ST, hheld, hent >>
 
 bf_w0(self) == /\ pc[self] = "bf_w0"
                /\ kk' = [kk EXCEPT ![self] = 1]
@@ -2368,7 +2541,8 @@ bf_w0(self) == /\ pc[self] = "bf_w0"
                                fin, bsnap, alive, uaf, errs, pci, opx, iv, pa, 
                                hd, tl, old, cur, nx, cbc, isrt, en, ec, wc, 
                                res, gd, fc, dc, newc, cidef, cifl, cn, bk, 
-                               regs, sci, ci, cac, fa, gps, stack >>
+                               regs, sci, ci, cac, fa, gps, sigs, insig, 
+                               oalive, gold, stack, ST, hheld, hent >>
 
 bf_wait(self) == /\ pc[self] = "bf_wait"
                  /\ IF kk[self] <= Len(regs[self])
@@ -2389,7 +2563,8 @@ bf_wait(self) == /\ pc[self] = "bf_wait"
                                  fin, bsnap, alive, errs, pci, opx, iv, pa, hd, 
                                  tl, old, cur, nx, cbc, isrt, en, ec, wc, res, 
                                  gd, fc, dc, newc, cidef, cifl, cn, bk, regs, 
-                                 sci, ci, cac, fa, gps >>
+                                 sci, ci, cac, fa, gps, sigs, insig, oalive, 
+                                 gold, ST, hheld, hent >>
 
 before_fork(self) == bf_lock(self) \/ bf_or(self) \/ bf_w0(self)
                         \/ bf_wait(self)
@@ -2404,7 +2579,8 @@ af_0(self) == /\ pc[self] = "af_0"
                               fin, bsnap, alive, uaf, errs, pci, opx, iv, pa, 
                               hd, tl, old, cur, nx, cbc, isrt, en, ec, wc, res, 
                               gd, fc, dc, newc, cidef, cifl, cn, bk, sci, ci, 
-                              cac, fa, gps, stack >>
+                              cac, fa, gps, sigs, insig, oalive, gold, stack, 
+                              ST, hheld, hent >>
 
 af_and(self) == /\ pc[self] = "af_and"
                 /\ IF kk[self] <= Len(regs[self])
@@ -2422,7 +2598,8 @@ af_and(self) == /\ pc[self] = "af_and"
                                 bsnap, alive, errs, pci, opx, iv, pa, hd, tl, 
                                 old, cur, nx, cbc, isrt, en, ec, wc, res, gd, 
                                 fc, dc, newc, cidef, cifl, cn, bk, regs, sci, 
-                                ci, cac, fa, gps, stack >>
+                                ci, cac, fa, gps, sigs, insig, oalive, gold, 
+                                stack, ST, hheld, hent >>
 
 af_w0(self) == /\ pc[self] = "af_w0"
                /\ kk' = [kk EXCEPT ![self] = 1]
@@ -2433,7 +2610,8 @@ af_w0(self) == /\ pc[self] = "af_w0"
                                fin, bsnap, alive, uaf, errs, pci, opx, iv, pa, 
                                hd, tl, old, cur, nx, cbc, isrt, en, ec, wc, 
                                res, gd, fc, dc, newc, cidef, cifl, cn, bk, 
-                               regs, sci, ci, cac, fa, gps, stack >>
+                               regs, sci, ci, cac, fa, gps, sigs, insig, 
+                               oalive, gold, stack, ST, hheld, hent >>
 
 af_wait(self) == /\ pc[self] = "af_wait"
                  /\ IF kk[self] <= Len(regs[self])
@@ -2452,7 +2630,8 @@ af_wait(self) == /\ pc[self] = "af_wait"
                                  fin, bsnap, alive, errs, pci, opx, iv, pa, hd, 
                                  tl, old, cur, nx, cbc, isrt, en, ec, wc, res, 
                                  gd, fc, dc, newc, cidef, cifl, cn, bk, regs, 
-                                 sci, ci, cac, fa, gps, stack >>
+                                 sci, ci, cac, fa, gps, sigs, insig, oalive, 
+                                 gold, stack, ST, hheld, hent >>
 
 af_unl(self) == /\ pc[self] = "af_unl"
                 /\ Drained(self)
@@ -2466,7 +2645,8 @@ af_unl(self) == /\ pc[self] = "af_unl"
                                 bsnap, alive, uaf, errs, pci, opx, iv, pa, hd, 
                                 tl, old, cur, nx, cbc, isrt, en, ec, wc, res, 
                                 gd, fc, dc, newc, cidef, cifl, cn, bk, regs, 
-                                kk, sci, ci, cac, fa, gps >>
+                                kk, sci, ci, cac, fa, gps, sigs, insig, oalive, 
+                                gold, ST, hheld, hent >>
 
 after_fork_parent(self) == af_0(self) \/ af_and(self) \/ af_w0(self)
                               \/ af_wait(self) \/ af_unl(self)
@@ -2484,7 +2664,7 @@ fl(self) == /\ pc[self] = "fl"
                             errs, pci, opx, iv, pa, hd, tl, old, cur, nx, cbc, 
                             isrt, en, ec, wc, res, gd, fc, dc, newc, cidef, 
                             cifl, cn, bk, regs, kk, sci, ci, cac, fa, gps, 
-                            stack >>
+                            sigs, insig, oalive, gold, stack, ST, hheld, hent >>
 
 flusher(self) == fl(self)
 
@@ -2501,9 +2681,116 @@ sw(self) == /\ pc[self] = "sw"
                             cnt, snap, queued, fin, bsnap, alive, uaf, errs, 
                             pci, opx, iv, pa, hd, tl, old, cur, nx, cbc, isrt, 
                             en, ec, wc, res, gd, fc, dc, newc, cidef, cifl, cn, 
-                            bk, regs, kk, sci, ci, cac, fa, gps, stack >>
+                            bk, regs, kk, sci, ci, cac, fa, gps, sigs, insig, 
+                            oalive, gold, stack, ST, hheld, hent >>
 
 spurw(self) == sw(self)
+
+sg_idle(self) == /\ pc[self] = "sg_idle"
+                 /\ sigs < SigBudget /\ ~insig[ST[self]] /\ pc[ST[self]] \notin {"Done", "t_exit"} /\ ST[self] \notin fsleep /\ Drained(ST[self])
+                 /\ sigs' = sigs + 1
+                 /\ insig' = [insig EXCEPT ![ST[self]] = TRUE]
+                 /\ hent' = [hent EXCEPT ![self] = <<rnest[ST[self]], cs[ST[self]]>>]
+                 /\ acc' = Ev(ST[self], "sig_enter", "-", rnest[ST[self]], "-", IF rnest[ST[self]] > 0 THEN 1 ELSE 0)
+                 /\ pc' = [pc EXCEPT ![self] = "sg_lock"]
+                 /\ UNCHANGED << mem, sb, lock, fsleep, wloc, spur, wkind, 
+                                 crlist, nhelp, started, cpulen, tcrd, mycpu, 
+                                 slot, func, rnest, cs, ncs, cnt, snap, queued, 
+                                 fin, bsnap, alive, uaf, errs, pci, opx, iv, 
+                                 pa, hd, tl, old, cur, nx, cbc, isrt, en, ec, 
+                                 wc, res, gd, fc, dc, newc, cidef, cifl, cn, 
+                                 bk, regs, kk, sci, ci, cac, fa, gps, oalive, 
+                                 gold, stack, ST, hheld >>
+
+sg_lock(self) == /\ pc[self] = "sg_lock"
+                 /\ IF rnest[ST[self]] = 0
+                       THEN /\ cs' = [cs EXCEPT ![ST[self]] = ncs[ST[self]] + 1]
+                            /\ ncs' = [ncs EXCEPT ![ST[self]] = ncs[ST[self]] + 1]
+                       ELSE /\ TRUE
+                            /\ UNCHANGED << cs, ncs >>
+                 /\ rnest' = [rnest EXCEPT ![ST[self]] = rnest[ST[self]] + 1]
+                 /\ acc' = Ev(ST[self], "rlock", "-", "-", "-", rnest'[ST[self]])
+                 /\ pc' = [pc EXCEPT ![self] = "sg_deref"]
+                 /\ UNCHANGED << mem, sb, lock, fsleep, wloc, spur, wkind, 
+                                 crlist, nhelp, started, cpulen, tcrd, mycpu, 
+                                 slot, func, cnt, snap, queued, fin, bsnap, 
+                                 alive, uaf, errs, pci, opx, iv, pa, hd, tl, 
+                                 old, cur, nx, cbc, isrt, en, ec, wc, res, gd, 
+                                 fc, dc, newc, cidef, cifl, cn, bk, regs, kk, 
+                                 sci, ci, cac, fa, gps, sigs, insig, oalive, 
+                                 gold, stack, ST, hheld, hent >>
+
+sg_deref(self) == /\ pc[self] = "sg_deref"
+                  /\ hheld' = [hheld EXCEPT ![self] = Rd(ST[self], "gptr")]
+                  /\ acc' = Ev(ST[self], "ld", "gptr", "-", "-", Rd(ST[self], "gptr"))
+                  /\ pc' = [pc EXCEPT ![self] = "sg_use"]
+                  /\ UNCHANGED << mem, sb, lock, fsleep, wloc, spur, wkind, 
+                                  crlist, nhelp, started, cpulen, tcrd, mycpu, 
+                                  slot, func, rnest, cs, ncs, cnt, snap, 
+                                  queued, fin, bsnap, alive, uaf, errs, pci, 
+                                  opx, iv, pa, hd, tl, old, cur, nx, cbc, isrt, 
+                                  en, ec, wc, res, gd, fc, dc, newc, cidef, 
+                                  cifl, cn, bk, regs, kk, sci, ci, cac, fa, 
+                                  gps, sigs, insig, oalive, gold, stack, ST, 
+                                  hent >>
+
+sg_use(self) == /\ pc[self] = "sg_use"
+                /\ IF ~oalive[hheld[self]]
+                      THEN /\ uaf' = TRUE
+                      ELSE /\ TRUE
+                           /\ uaf' = uaf
+                /\ pc' = [pc EXCEPT ![self] = "sg_unl"]
+                /\ UNCHANGED << mem, sb, lock, acc, fsleep, wloc, spur, wkind, 
+                                crlist, nhelp, started, cpulen, tcrd, mycpu, 
+                                slot, func, rnest, cs, ncs, cnt, snap, queued, 
+                                fin, bsnap, alive, errs, pci, opx, iv, pa, hd, 
+                                tl, old, cur, nx, cbc, isrt, en, ec, wc, res, 
+                                gd, fc, dc, newc, cidef, cifl, cn, bk, regs, 
+                                kk, sci, ci, cac, fa, gps, sigs, insig, oalive, 
+                                gold, stack, ST, hheld, hent >>
+
+sg_unl(self) == /\ pc[self] = "sg_unl"
+                /\ IF "sigleak" \notin Mut \/ hent[self][1] = 0
+                      THEN /\ rnest' = [rnest EXCEPT ![ST[self]] = rnest[ST[self]] - 1]
+                      ELSE /\ TRUE
+                           /\ rnest' = rnest
+                /\ IF rnest'[ST[self]] = 0
+                      THEN /\ cs' = [cs EXCEPT ![ST[self]] = 0]
+                      ELSE /\ TRUE
+                           /\ cs' = cs
+                /\ hheld' = [hheld EXCEPT ![self] = NULL]
+                /\ acc' = Ev(ST[self], "runlock", "-", "-", "-", rnest'[ST[self]])
+                /\ pc' = [pc EXCEPT ![self] = "sg_exit"]
+                /\ UNCHANGED << mem, sb, lock, fsleep, wloc, spur, wkind, 
+                                crlist, nhelp, started, cpulen, tcrd, mycpu, 
+                                slot, func, ncs, cnt, snap, queued, fin, bsnap, 
+                                alive, uaf, errs, pci, opx, iv, pa, hd, tl, 
+                                old, cur, nx, cbc, isrt, en, ec, wc, res, gd, 
+                                fc, dc, newc, cidef, cifl, cn, bk, regs, kk, 
+                                sci, ci, cac, fa, gps, sigs, insig, oalive, 
+                                gold, stack, ST, hent >>
+
+sg_exit(self) == /\ pc[self] = "sg_exit"
+                 /\ Drained(ST[self])
+                 /\ IF <<rnest[ST[self]], cs[ST[self]]>> # hent[self]
+                       THEN /\ errs' = (errs \cup {"SigRestores"})
+                       ELSE /\ TRUE
+                            /\ errs' = errs
+                 /\ insig' = [insig EXCEPT ![ST[self]] = FALSE]
+                 /\ hent' = [hent EXCEPT ![self] = <<0, 0>>]
+                 /\ acc' = Ev(ST[self], "sig_exit", "-", rnest[ST[self]], "-", IF rnest[ST[self]] > 0 THEN 1 ELSE 0)
+                 /\ pc' = [pc EXCEPT ![self] = "sg_idle"]
+                 /\ UNCHANGED << mem, sb, lock, fsleep, wloc, spur, wkind, 
+                                 crlist, nhelp, started, cpulen, tcrd, mycpu, 
+                                 slot, func, rnest, cs, ncs, cnt, snap, queued, 
+                                 fin, bsnap, alive, uaf, pci, opx, iv, pa, hd, 
+                                 tl, old, cur, nx, cbc, isrt, en, ec, wc, res, 
+                                 gd, fc, dc, newc, cidef, cifl, cn, bk, regs, 
+                                 kk, sci, ci, cac, fa, gps, sigs, oalive, gold, 
+                                 stack, ST, hheld >>
+
+sig(self) == sg_idle(self) \/ sg_lock(self) \/ sg_deref(self)
+                \/ sg_use(self) \/ sg_unl(self) \/ sg_exit(self)
 
 h_idle(self) == /\ pc[self] = "h_idle"
                 /\ started[self]
@@ -2514,7 +2801,8 @@ h_idle(self) == /\ pc[self] = "h_idle"
                                 fin, bsnap, alive, uaf, errs, pci, opx, iv, pa, 
                                 hd, tl, old, cur, nx, cbc, isrt, en, ec, wc, 
                                 res, gd, fc, dc, newc, cidef, cifl, cn, bk, 
-                                regs, kk, sci, ci, cac, fa, gps, stack >>
+                                regs, kk, sci, ci, cac, fa, gps, sigs, insig, 
+                                oalive, gold, stack, ST, hheld, hent >>
 
 h_flags(self) == /\ pc[self] = "h_flags"
                  /\ uaf' = (uaf \/ Dead((FlagsOf(CrOf[self]))))
@@ -2530,7 +2818,8 @@ h_flags(self) == /\ pc[self] = "h_flags"
                                  bsnap, alive, errs, pci, opx, iv, pa, hd, tl, 
                                  old, cur, nx, cbc, en, ec, wc, res, gd, fc, 
                                  dc, newc, cidef, cifl, cn, bk, regs, kk, sci, 
-                                 ci, cac, fa, gps, stack >>
+                                 ci, cac, fa, gps, sigs, insig, oalive, gold, 
+                                 stack, ST, hheld, hent >>
 
 h_dec0(self) == /\ pc[self] = "h_dec0"
                 /\ Drained(self)
@@ -2544,7 +2833,8 @@ h_dec0(self) == /\ pc[self] = "h_dec0"
                                 bsnap, alive, errs, pci, opx, iv, pa, hd, tl, 
                                 old, cur, nx, cbc, isrt, en, ec, wc, res, gd, 
                                 fc, dc, newc, cidef, cifl, cn, bk, regs, kk, 
-                                sci, ci, cac, fa, gps, stack >>
+                                sci, ci, cac, fa, gps, sigs, insig, oalive, 
+                                gold, stack, ST, hheld, hent >>
 
 h_mb0(self) == /\ pc[self] = "h_mb0"
                /\ Drained(self)
@@ -2556,7 +2846,8 @@ h_mb0(self) == /\ pc[self] = "h_mb0"
                                fin, bsnap, alive, uaf, errs, pci, opx, iv, pa, 
                                hd, tl, old, cur, nx, cbc, isrt, en, ec, wc, 
                                res, gd, fc, dc, newc, cidef, cifl, cn, bk, 
-                               regs, kk, sci, ci, cac, fa, gps, stack >>
+                               regs, kk, sci, ci, cac, fa, gps, sigs, insig, 
+                               oalive, gold, stack, ST, hheld, hent >>
 
 h_top(self) == /\ pc[self] = "h_top"
                /\ uaf' = (uaf \/ Dead((FlagsOf(CrOf[self]))))
@@ -2570,7 +2861,8 @@ h_top(self) == /\ pc[self] = "h_top"
                                fin, bsnap, alive, errs, pci, opx, iv, pa, hd, 
                                tl, old, cur, nx, cbc, isrt, en, ec, wc, res, 
                                gd, fc, dc, newc, cidef, cifl, cn, bk, regs, kk, 
-                               sci, ci, cac, fa, gps, stack >>
+                               sci, ci, cac, fa, gps, sigs, insig, oalive, 
+                               gold, stack, ST, hheld, hent >>
 
 p_or(self) == /\ pc[self] = "p_or"
               /\ Drained(self)
@@ -2584,7 +2876,8 @@ p_or(self) == /\ pc[self] = "p_or"
                               alive, errs, pci, opx, iv, pa, hd, tl, old, cur, 
                               nx, cbc, isrt, en, ec, wc, res, gd, fc, dc, newc, 
                               cidef, cifl, cn, bk, regs, kk, sci, ci, cac, fa, 
-                              gps, stack >>
+                              gps, sigs, insig, oalive, gold, stack, ST, hheld, 
+                              hent >>
 
 p_wait(self) == /\ pc[self] = "p_wait"
                 /\ uaf' = (uaf \/ Dead((FlagsOf(CrOf[self]))))
@@ -2598,7 +2891,8 @@ p_wait(self) == /\ pc[self] = "p_wait"
                                 fin, bsnap, alive, errs, pci, opx, iv, pa, hd, 
                                 tl, old, cur, nx, cbc, isrt, en, ec, wc, res, 
                                 gd, fc, dc, newc, cidef, cifl, cn, bk, regs, 
-                                kk, sci, ci, cac, fa, gps, stack >>
+                                kk, sci, ci, cac, fa, gps, sigs, insig, oalive, 
+                                gold, stack, ST, hheld, hent >>
 
 p_and(self) == /\ pc[self] = "p_and"
                /\ Drained(self)
@@ -2612,7 +2906,8 @@ p_and(self) == /\ pc[self] = "p_and"
                                alive, errs, pci, opx, iv, pa, hd, tl, old, cur, 
                                nx, cbc, isrt, en, ec, wc, res, gd, fc, dc, 
                                newc, cidef, cifl, cn, bk, regs, kk, sci, ci, 
-                               cac, fa, gps, stack >>
+                               cac, fa, gps, sigs, insig, oalive, gold, stack, 
+                               ST, hheld, hent >>
 
 s_e1(self) == /\ pc[self] = "s_e1"
               /\ uaf' = (uaf \/ Dead((NextOf(Hd(CrOf[self])))))
@@ -2628,7 +2923,8 @@ s_e1(self) == /\ pc[self] = "s_e1"
                               alive, errs, pci, opx, iv, pa, hd, tl, old, cur, 
                               nx, cbc, isrt, en, ec, wc, res, gd, fc, dc, newc, 
                               cidef, cifl, cn, bk, regs, kk, sci, ci, cac, fa, 
-                              gps, stack >>
+                              gps, sigs, insig, oalive, gold, stack, ST, hheld, 
+                              hent >>
 
 s_e2(self) == /\ pc[self] = "s_e2"
               /\ uaf' = (uaf \/ Dead((TailOf(CrOf[self]))))
@@ -2644,7 +2940,8 @@ s_e2(self) == /\ pc[self] = "s_e2"
                               alive, errs, pci, opx, iv, pa, hd, tl, old, cur, 
                               nx, cbc, isrt, en, ec, wc, res, gd, fc, dc, newc, 
                               cidef, cifl, cn, bk, regs, kk, sci, ci, cac, fa, 
-                              gps, stack >>
+                              gps, sigs, insig, oalive, gold, stack, ST, hheld, 
+                              hent >>
 
 m_gp(self) == /\ pc[self] = "m_gp"
               /\ stack' = [stack EXCEPT ![self] = << [ procedure |->  "synchronize_rcu",
@@ -2657,7 +2954,8 @@ m_gp(self) == /\ pc[self] = "m_gp"
                               fin, bsnap, alive, uaf, errs, pci, opx, iv, pa, 
                               hd, tl, old, cur, nx, cbc, isrt, en, ec, wc, res, 
                               gd, fc, dc, newc, cidef, cifl, cn, bk, regs, kk, 
-                              sci, ci, cac, fa, gps >>
+                              sci, ci, cac, fa, gps, sigs, insig, oalive, gold, 
+                              ST, hheld, hent >>
 
 s_xh(self) == /\ pc[self] = "s_xh"
               /\ Drained(self)
@@ -2674,7 +2972,8 @@ s_xh(self) == /\ pc[self] = "s_xh"
                               alive, errs, pci, opx, iv, pa, tl, old, cur, nx, 
                               cbc, isrt, en, ec, wc, res, gd, fc, dc, newc, 
                               cidef, cifl, cn, bk, regs, kk, sci, ci, cac, fa, 
-                              gps, stack >>
+                              gps, sigs, insig, oalive, gold, stack, ST, hheld, 
+                              hent >>
 
 s_lt(self) == /\ pc[self] = "s_lt"
               /\ uaf' = (uaf \/ Dead((TailOf(CrOf[self]))))
@@ -2688,7 +2987,8 @@ s_lt(self) == /\ pc[self] = "s_lt"
                               alive, errs, pci, opx, iv, pa, hd, tl, old, cur, 
                               nx, cbc, isrt, en, ec, wc, res, gd, fc, dc, newc, 
                               cidef, cifl, cn, bk, regs, kk, sci, ci, cac, fa, 
-                              gps, stack >>
+                              gps, sigs, insig, oalive, gold, stack, ST, hheld, 
+                              hent >>
 
 s_mb(self) == /\ pc[self] = "s_mb"
               /\ Drained(self)
@@ -2700,7 +3000,8 @@ s_mb(self) == /\ pc[self] = "s_mb"
                               alive, uaf, errs, pci, opx, iv, pa, hd, tl, old, 
                               cur, nx, cbc, isrt, en, ec, wc, res, gd, fc, dc, 
                               newc, cidef, cifl, cn, bk, regs, kk, sci, ci, 
-                              cac, fa, gps, stack >>
+                              cac, fa, gps, sigs, insig, oalive, gold, stack, 
+                              ST, hheld, hent >>
 
 s_xt(self) == /\ pc[self] = "s_xt"
               /\ Drained(self)
@@ -2718,7 +3019,8 @@ s_xt(self) == /\ pc[self] = "s_xt"
                               rnest, cs, ncs, cnt, snap, queued, fin, bsnap, 
                               alive, errs, pci, opx, iv, pa, hd, old, nx, isrt, 
                               en, ec, wc, res, gd, fc, dc, newc, cidef, cifl, 
-                              cn, bk, regs, kk, sci, ci, cac, fa, gps, stack >>
+                              cn, bk, regs, kk, sci, ci, cac, fa, gps, sigs, 
+                              insig, oalive, gold, stack, ST, hheld, hent >>
 
 h_gp(self) == /\ pc[self] = "h_gp"
               /\ stack' = [stack EXCEPT ![self] = << [ procedure |->  "synchronize_rcu",
@@ -2731,7 +3033,8 @@ h_gp(self) == /\ pc[self] = "h_gp"
                               fin, bsnap, alive, uaf, errs, pci, opx, iv, pa, 
                               hd, tl, old, cur, nx, cbc, isrt, en, ec, wc, res, 
                               gd, fc, dc, newc, cidef, cifl, cn, bk, regs, kk, 
-                              sci, ci, cac, fa, gps >>
+                              sci, ci, cac, fa, gps, sigs, insig, oalive, gold, 
+                              ST, hheld, hent >>
 
 it_ld(self) == /\ pc[self] = "it_ld"
                /\ nx' = [nx EXCEPT ![self] = Rd(self, (NextOf(cur[self])))]
@@ -2746,7 +3049,8 @@ it_ld(self) == /\ pc[self] = "it_ld"
                                fin, bsnap, alive, errs, pci, opx, iv, pa, hd, 
                                tl, old, cur, cbc, isrt, en, ec, wc, res, gd, 
                                fc, dc, newc, cidef, cifl, cn, bk, regs, kk, 
-                               sci, ci, cac, fa, gps, stack >>
+                               sci, ci, cac, fa, gps, sigs, insig, oalive, 
+                               gold, stack, ST, hheld, hent >>
 
 it_re(self) == /\ pc[self] = "it_re"
                /\ cn' = [cn EXCEPT ![self] = Re[cur[self]]]
@@ -2762,7 +3066,8 @@ it_re(self) == /\ pc[self] = "it_re"
                                bsnap, alive, uaf, errs, pci, opx, iv, pa, hd, 
                                tl, old, cur, nx, cbc, isrt, en, ec, wc, res, 
                                gd, fc, dc, newc, cidef, cifl, bk, regs, kk, 
-                               sci, ci, cac, fa, gps >>
+                               sci, ci, cac, fa, gps, sigs, insig, oalive, 
+                               gold, ST, hheld, hent >>
 
 it_rr(self) == /\ pc[self] = "it_rr"
                /\ queued' = (queued \cup {cn[self]})
@@ -2774,7 +3079,8 @@ it_rr(self) == /\ pc[self] = "it_rr"
                                bsnap, alive, uaf, errs, pci, opx, iv, pa, hd, 
                                tl, old, cur, nx, cbc, isrt, en, ec, wc, res, 
                                gd, fc, dc, newc, cidef, cifl, cn, bk, regs, kk, 
-                               sci, ci, cac, fa, gps, stack >>
+                               sci, ci, cac, fa, gps, sigs, insig, oalive, 
+                               gold, stack, ST, hheld, hent >>
 
 it_end(self) == /\ pc[self] = "it_end"
                 /\ fin' = (fin \cup {cur[self]})
@@ -2790,7 +3096,8 @@ it_end(self) == /\ pc[self] = "it_end"
                                 bsnap, alive, uaf, errs, pci, opx, iv, pa, hd, 
                                 tl, old, nx, isrt, en, ec, wc, res, gd, fc, dc, 
                                 newc, cidef, cifl, cn, bk, regs, kk, sci, ci, 
-                                cac, fa, gps, stack >>
+                                cac, fa, gps, sigs, insig, oalive, gold, stack, 
+                                ST, hheld, hent >>
 
 it_inv(self) == /\ pc[self] = "it_inv"
                 /\ IF cur[self] \in Works
@@ -2824,7 +3131,8 @@ it_inv(self) == /\ pc[self] = "it_inv"
                                 bsnap, alive, uaf, pci, opx, iv, pa, hd, tl, 
                                 old, cur, nx, cbc, isrt, en, ec, wc, res, gd, 
                                 fc, dc, newc, cidef, cifl, cn, regs, kk, sci, 
-                                ci, cac, fa, gps >>
+                                ci, cac, fa, gps, sigs, insig, oalive, gold, 
+                                ST, hheld, hent >>
 
 it_nxt(self) == /\ pc[self] = "it_nxt"
                 /\ cbc' = [cbc EXCEPT ![self] = cbc[self] + 1]
@@ -2838,7 +3146,8 @@ it_nxt(self) == /\ pc[self] = "it_nxt"
                                 fin, bsnap, alive, uaf, errs, pci, opx, iv, pa, 
                                 hd, tl, old, nx, isrt, en, ec, wc, res, gd, fc, 
                                 dc, newc, cidef, cifl, cn, bk, regs, kk, sci, 
-                                ci, cac, fa, gps, stack >>
+                                ci, cac, fa, gps, sigs, insig, oalive, gold, 
+                                stack, ST, hheld, hent >>
 
 h_sub(self) == /\ pc[self] = "h_sub"
                /\ Drained(self)
@@ -2852,7 +3161,8 @@ h_sub(self) == /\ pc[self] = "h_sub"
                                alive, errs, pci, opx, iv, pa, hd, tl, old, cur, 
                                nx, cbc, isrt, en, ec, wc, res, gd, fc, dc, 
                                newc, cidef, cifl, cn, bk, regs, kk, sci, ci, 
-                               cac, fa, gps, stack >>
+                               cac, fa, gps, sigs, insig, oalive, gold, stack, 
+                               ST, hheld, hent >>
 
 h_stop(self) == /\ pc[self] = "h_stop"
                 /\ uaf' = (uaf \/ Dead((FlagsOf(CrOf[self]))))
@@ -2875,7 +3185,8 @@ h_stop(self) == /\ pc[self] = "h_stop"
                                 fin, bsnap, alive, errs, pci, opx, iv, pa, old, 
                                 isrt, en, ec, wc, res, gd, fc, dc, newc, cidef, 
                                 cifl, cn, bk, regs, kk, sci, ci, cac, fa, gps, 
-                                stack >>
+                                sigs, insig, oalive, gold, stack, ST, hheld, 
+                                hent >>
 
 h_e1(self) == /\ pc[self] = "h_e1"
               /\ uaf' = (uaf \/ Dead((NextOf(Hd(CrOf[self])))))
@@ -2889,7 +3200,8 @@ h_e1(self) == /\ pc[self] = "h_e1"
                               alive, errs, pci, opx, iv, pa, hd, tl, old, cur, 
                               nx, cbc, isrt, en, ec, wc, res, gd, fc, dc, newc, 
                               cidef, cifl, cn, bk, regs, kk, sci, ci, cac, fa, 
-                              gps, stack >>
+                              gps, sigs, insig, oalive, gold, stack, ST, hheld, 
+                              hent >>
 
 h_e2(self) == /\ pc[self] = "h_e2"
               /\ uaf' = (uaf \/ Dead((TailOf(CrOf[self]))))
@@ -2903,7 +3215,8 @@ h_e2(self) == /\ pc[self] = "h_e2"
                               alive, errs, pci, opx, iv, pa, hd, tl, old, cur, 
                               nx, cbc, isrt, en, ec, wc, res, gd, fc, dc, newc, 
                               cidef, cifl, cn, bk, regs, kk, sci, ci, cac, fa, 
-                              gps, stack >>
+                              gps, sigs, insig, oalive, gold, stack, ST, hheld, 
+                              hent >>
 
 w_mb(self) == /\ pc[self] = "w_mb"
               /\ Drained(self)
@@ -2915,7 +3228,8 @@ w_mb(self) == /\ pc[self] = "w_mb"
                               alive, uaf, errs, pci, opx, iv, pa, hd, tl, old, 
                               cur, nx, cbc, isrt, en, ec, wc, res, gd, fc, dc, 
                               newc, cidef, cifl, cn, bk, regs, kk, sci, ci, 
-                              cac, fa, gps, stack >>
+                              cac, fa, gps, sigs, insig, oalive, gold, stack, 
+                              ST, hheld, hent >>
 
 w_ld(self) == /\ pc[self] = "w_ld"
               /\ uaf' = (uaf \/ Dead((FutexOf(CrOf[self]))))
@@ -2929,7 +3243,8 @@ w_ld(self) == /\ pc[self] = "w_ld"
                               alive, errs, pci, opx, iv, pa, hd, tl, old, cur, 
                               nx, cbc, isrt, en, ec, wc, res, gd, fc, dc, newc, 
                               cidef, cifl, cn, bk, regs, kk, sci, ci, cac, fa, 
-                              gps, stack >>
+                              gps, sigs, insig, oalive, gold, stack, ST, hheld, 
+                              hent >>
 
 w_fwait(self) == /\ pc[self] = "w_fwait"
                  /\ Drained(self)
@@ -2948,7 +3263,8 @@ w_fwait(self) == /\ pc[self] = "w_fwait"
                                  alive, errs, pci, opx, iv, pa, hd, tl, old, 
                                  cur, nx, cbc, isrt, en, ec, wc, res, gd, fc, 
                                  dc, newc, cidef, cifl, cn, bk, regs, kk, sci, 
-                                 ci, cac, fa, gps, stack >>
+                                 ci, cac, fa, gps, sigs, insig, oalive, gold, 
+                                 stack, ST, hheld, hent >>
 
 w_fwoke(self) == /\ pc[self] = "w_fwoke"
                  /\ self \notin fsleep
@@ -2961,7 +3277,8 @@ w_fwoke(self) == /\ pc[self] = "w_fwoke"
                                  bsnap, alive, uaf, errs, pci, opx, iv, pa, hd, 
                                  tl, old, cur, nx, cbc, isrt, en, ec, wc, res, 
                                  gd, fc, dc, newc, cidef, cifl, cn, bk, regs, 
-                                 kk, sci, ci, cac, fa, gps, stack >>
+                                 kk, sci, ci, cac, fa, gps, sigs, insig, 
+                                 oalive, gold, stack, ST, hheld, hent >>
 
 w_dec(self) == /\ pc[self] = "w_dec"
                /\ Drained(self)
@@ -2975,7 +3292,8 @@ w_dec(self) == /\ pc[self] = "w_dec"
                                alive, errs, pci, opx, iv, pa, hd, tl, old, cur, 
                                nx, cbc, isrt, en, ec, wc, res, gd, fc, dc, 
                                newc, cidef, cifl, cn, bk, regs, kk, sci, ci, 
-                               cac, fa, gps, stack >>
+                               cac, fa, gps, sigs, insig, oalive, gold, stack, 
+                               ST, hheld, hent >>
 
 w_mb2(self) == /\ pc[self] = "w_mb2"
                /\ Drained(self)
@@ -2987,7 +3305,8 @@ w_mb2(self) == /\ pc[self] = "w_mb2"
                                fin, bsnap, alive, uaf, errs, pci, opx, iv, pa, 
                                hd, tl, old, cur, nx, cbc, isrt, en, ec, wc, 
                                res, gd, fc, dc, newc, cidef, cifl, cn, bk, 
-                               regs, kk, sci, ci, cac, fa, gps, stack >>
+                               regs, kk, sci, ci, cac, fa, gps, sigs, insig, 
+                               oalive, gold, stack, ST, hheld, hent >>
 
 o_mb(self) == /\ pc[self] = "o_mb"
               /\ Drained(self)
@@ -2999,7 +3318,8 @@ o_mb(self) == /\ pc[self] = "o_mb"
                               alive, uaf, errs, pci, opx, iv, pa, hd, tl, old, 
                               cur, nx, cbc, isrt, en, ec, wc, res, gd, fc, dc, 
                               newc, cidef, cifl, cn, bk, regs, kk, sci, ci, 
-                              cac, fa, gps, stack >>
+                              cac, fa, gps, sigs, insig, oalive, gold, stack, 
+                              ST, hheld, hent >>
 
 o_st(self) == /\ pc[self] = "o_st"
               /\ IF TSO
@@ -3017,7 +3337,8 @@ o_st(self) == /\ pc[self] = "o_st"
                               errs, pci, opx, iv, pa, hd, tl, old, cur, nx, 
                               cbc, isrt, en, ec, wc, res, gd, fc, dc, newc, 
                               cidef, cifl, cn, bk, regs, kk, sci, ci, cac, fa, 
-                              gps, stack >>
+                              gps, sigs, insig, oalive, gold, stack, ST, hheld, 
+                              hent >>
 
 o_or(self) == /\ pc[self] = "o_or"
               /\ Drained(self)
@@ -3031,7 +3352,8 @@ o_or(self) == /\ pc[self] = "o_or"
                               alive, errs, pci, opx, iv, pa, hd, tl, old, cur, 
                               nx, cbc, isrt, en, ec, wc, res, gd, fc, dc, newc, 
                               cidef, cifl, cn, bk, regs, kk, sci, ci, cac, fa, 
-                              gps, stack >>
+                              gps, sigs, insig, oalive, gold, stack, ST, hheld, 
+                              hent >>
 
 h_exit(self) == /\ pc[self] = "h_exit"
                 /\ Drained(self)
@@ -3043,7 +3365,8 @@ h_exit(self) == /\ pc[self] = "h_exit"
                                 fin, bsnap, alive, uaf, errs, pci, opx, iv, pa, 
                                 hd, tl, old, cur, nx, cbc, isrt, en, ec, wc, 
                                 res, gd, fc, dc, newc, cidef, cifl, cn, bk, 
-                                regs, kk, sci, ci, cac, fa, gps, stack >>
+                                regs, kk, sci, ci, cac, fa, gps, sigs, insig, 
+                                oalive, gold, stack, ST, hheld, hent >>
 
 helper(self) == h_idle(self) \/ h_flags(self) \/ h_dec0(self)
                    \/ h_mb0(self) \/ h_top(self) \/ p_or(self)
@@ -3073,7 +3396,8 @@ t_top(self) == /\ pc[self] = "t_top"
                                      /\ pc' = [pc EXCEPT ![self] = "t_top"]
                                      /\ UNCHANGED << tcrd, mycpu, snap, bsnap, 
                                                      alive, en, res, fc, cidef, 
-                                                     cifl, cn, bk, sci, stack >>
+                                                     cifl, cn, bk, sci, oalive, 
+                                                     gold, stack >>
                                 ELSE /\ IF opx'[self].op = "runlock"
                                            THEN /\ rnest' = [rnest EXCEPT ![self] = rnest[self] - 1]
                                                 /\ pci' = [pci EXCEPT ![self] = pci[self] + 1]
@@ -3088,7 +3412,8 @@ t_top(self) == /\ pc[self] = "t_top"
                                                                 alive, en, res, 
                                                                 fc, cidef, 
                                                                 cifl, cn, bk, 
-                                                                sci, stack >>
+                                                                sci, oalive, 
+                                                                gold, stack >>
                                            ELSE /\ IF opx'[self].op = "cpu"
                                                       THEN /\ mycpu' = [mycpu EXCEPT ![self] = opx'[self].c]
                                                            /\ pci' = [pci EXCEPT ![self] = pci[self] + 1]
@@ -3106,6 +3431,8 @@ t_top(self) == /\ pc[self] = "t_top"
                                                                            cn, 
                                                                            bk, 
                                                                            sci, 
+                                                                           oalive, 
+                                                                           gold, 
                                                                            stack >>
                                                       ELSE /\ IF opx'[self].op \in {"offline", "online"}
                                                                  THEN /\ pci' = [pci EXCEPT ![self] = pci[self] + 1]
@@ -3123,6 +3450,8 @@ t_top(self) == /\ pc[self] = "t_top"
                                                                                       cn, 
                                                                                       bk, 
                                                                                       sci, 
+                                                                                      oalive, 
+                                                                                      gold, 
                                                                                       stack >>
                                                                  ELSE /\ IF opx'[self].op = "call"
                                                                             THEN /\ cn' = [cn EXCEPT ![self] = opx'[self].n]
@@ -3177,61 +3506,98 @@ t_top(self) == /\ pc[self] = "t_top"
                                                                                                                           pc        |->  "t_ret" ] >>
                                                                                                                       \o stack[self]]
                                                                                  /\ pc' = [pc EXCEPT ![self] = "cr_lock"]
-                                                                                 /\ tcrd' = tcrd
+                                                                                 /\ UNCHANGED << tcrd, 
+                                                                                                 oalive, 
+                                                                                                 gold >>
                                                                             ELSE /\ IF opx'[self].op = "sync"
-                                                                                       THEN /\ stack' = [stack EXCEPT ![self] = << [ procedure |->  "synchronize_rcu",
-                                                                                                                                     pc        |->  "t_ret" ] >>
-                                                                                                                                 \o stack[self]]
-                                                                                            /\ pc' = [pc EXCEPT ![self] = "gp_b"]
-                                                                                            /\ tcrd' = tcrd
+                                                                                       THEN /\ IF "nousync" \in Mut
+                                                                                                  THEN /\ pc' = [pc EXCEPT ![self] = "t_ret"]
+                                                                                                       /\ stack' = stack
+                                                                                                  ELSE /\ stack' = [stack EXCEPT ![self] = << [ procedure |->  "synchronize_rcu",
+                                                                                                                                                pc        |->  "t_ret" ] >>
+                                                                                                                                            \o stack[self]]
+                                                                                                       /\ pc' = [pc EXCEPT ![self] = "gp_b"]
+                                                                                            /\ UNCHANGED << tcrd, 
+                                                                                                            oalive, 
+                                                                                                            gold >>
                                                                                        ELSE /\ IF opx'[self].op = "getdef"
                                                                                                   THEN /\ stack' = [stack EXCEPT ![self] = << [ procedure |->  "get_default",
                                                                                                                                                 pc        |->  "t_ret" ] >>
                                                                                                                                             \o stack[self]]
                                                                                                        /\ pc' = [pc EXCEPT ![self] = "gd_ld"]
-                                                                                                       /\ tcrd' = tcrd
+                                                                                                       /\ UNCHANGED << tcrd, 
+                                                                                                                       oalive, 
+                                                                                                                       gold >>
                                                                                                   ELSE /\ IF opx'[self].op = "create"
                                                                                                              THEN /\ pc' = [pc EXCEPT ![self] = "t_crl"]
                                                                                                                   /\ UNCHANGED << tcrd, 
+                                                                                                                                  oalive, 
+                                                                                                                                  gold, 
                                                                                                                                   stack >>
                                                                                                              ELSE /\ IF opx'[self].op = "setthr"
                                                                                                                         THEN /\ tcrd' = [tcrd EXCEPT ![self] = IF opx'[self].x = NULL THEN NULL ELSE slot[opx'[self].x]]
                                                                                                                              /\ pc' = [pc EXCEPT ![self] = "t_ret"]
-                                                                                                                             /\ stack' = stack
+                                                                                                                             /\ UNCHANGED << oalive, 
+                                                                                                                                             gold, 
+                                                                                                                                             stack >>
                                                                                                                         ELSE /\ IF opx'[self].op = "setcpu"
                                                                                                                                    THEN /\ stack' = [stack EXCEPT ![self] = << [ procedure |->  "set_cpu",
                                                                                                                                                                                  pc        |->  "t_ret" ] >>
                                                                                                                                                                              \o stack[self]]
                                                                                                                                         /\ pc' = [pc EXCEPT ![self] = "sc_lock"]
+                                                                                                                                        /\ UNCHANGED << oalive, 
+                                                                                                                                                        gold >>
                                                                                                                                    ELSE /\ IF opx'[self].op = "createall"
                                                                                                                                               THEN /\ stack' = [stack EXCEPT ![self] = << [ procedure |->  "create_all",
                                                                                                                                                                                             pc        |->  "t_ret" ] >>
                                                                                                                                                                                         \o stack[self]]
                                                                                                                                                    /\ pc' = [pc EXCEPT ![self] = "ca_lock"]
+                                                                                                                                                   /\ UNCHANGED << oalive, 
+                                                                                                                                                                   gold >>
                                                                                                                                               ELSE /\ IF opx'[self].op = "freeall"
                                                                                                                                                          THEN /\ stack' = [stack EXCEPT ![self] = << [ procedure |->  "free_all",
                                                                                                                                                                                                        pc        |->  "t_ret" ] >>
                                                                                                                                                                                                    \o stack[self]]
                                                                                                                                                               /\ pc' = [pc EXCEPT ![self] = "fa_len"]
+                                                                                                                                                              /\ UNCHANGED << oalive, 
+                                                                                                                                                                              gold >>
                                                                                                                                                          ELSE /\ IF opx'[self].op = "free"
                                                                                                                                                                     THEN /\ stack' = [stack EXCEPT ![self] = << [ procedure |->  "data_free",
                                                                                                                                                                                                                   pc        |->  "t_ret" ] >>
                                                                                                                                                                                                               \o stack[self]]
                                                                                                                                                                          /\ pc' = [pc EXCEPT ![self] = "f_chk"]
+                                                                                                                                                                         /\ UNCHANGED << oalive, 
+                                                                                                                                                                                         gold >>
                                                                                                                                                                     ELSE /\ IF opx'[self].op = "barrier"
                                                                                                                                                                                THEN /\ stack' = [stack EXCEPT ![self] = << [ procedure |->  "barrier",
                                                                                                                                                                                                                              pc        |->  "t_ret" ] >>
                                                                                                                                                                                                                          \o stack[self]]
                                                                                                                                                                                     /\ pc' = [pc EXCEPT ![self] = "b_lock"]
+                                                                                                                                                                                    /\ UNCHANGED << oalive, 
+                                                                                                                                                                                                    gold >>
                                                                                                                                                                                ELSE /\ IF opx'[self].op = "pause"
                                                                                                                                                                                           THEN /\ stack' = [stack EXCEPT ![self] = << [ procedure |->  "before_fork",
                                                                                                                                                                                                                                         pc        |->  "t_ret" ] >>
                                                                                                                                                                                                                                     \o stack[self]]
                                                                                                                                                                                                /\ pc' = [pc EXCEPT ![self] = "bf_lock"]
-                                                                                                                                                                                          ELSE /\ stack' = [stack EXCEPT ![self] = << [ procedure |->  "after_fork_parent",
-                                                                                                                                                                                                                                        pc        |->  "t_ret" ] >>
-                                                                                                                                                                                                                                    \o stack[self]]
-                                                                                                                                                                                               /\ pc' = [pc EXCEPT ![self] = "af_0"]
+                                                                                                                                                                                               /\ UNCHANGED << oalive, 
+                                                                                                                                                                                                               gold >>
+                                                                                                                                                                                          ELSE /\ IF opx'[self].op = "pub"
+                                                                                                                                                                                                     THEN /\ pc' = [pc EXCEPT ![self] = "t_pub"]
+                                                                                                                                                                                                          /\ UNCHANGED << oalive, 
+                                                                                                                                                                                                                          gold, 
+                                                                                                                                                                                                                          stack >>
+                                                                                                                                                                                                     ELSE /\ IF opx'[self].op = "qfree"
+                                                                                                                                                                                                                THEN /\ oalive' = [oalive EXCEPT ![gold[self]] = FALSE]
+                                                                                                                                                                                                                     /\ gold' = [gold EXCEPT ![self] = NULL]
+                                                                                                                                                                                                                     /\ pc' = [pc EXCEPT ![self] = "t_ret"]
+                                                                                                                                                                                                                     /\ stack' = stack
+                                                                                                                                                                                                                ELSE /\ stack' = [stack EXCEPT ![self] = << [ procedure |->  "after_fork_parent",
+                                                                                                                                                                                                                                                              pc        |->  "t_ret" ] >>
+                                                                                                                                                                                                                                                          \o stack[self]]
+                                                                                                                                                                                                                     /\ pc' = [pc EXCEPT ![self] = "af_0"]
+                                                                                                                                                                                                                     /\ UNCHANGED << oalive, 
+                                                                                                                                                                                                                                     gold >>
                                                                                                                              /\ tcrd' = tcrd
                                                                       /\ pci' = pci
                                                            /\ mycpu' = mycpu
@@ -3241,12 +3607,13 @@ t_top(self) == /\ pc[self] = "t_top"
                           /\ UNCHANGED << acc, tcrd, mycpu, rnest, cs, ncs, 
                                           snap, bsnap, alive, pci, opx, en, 
                                           res, fc, cidef, cifl, cn, bk, sci, 
-                                          stack >>
+                                          oalive, gold, stack >>
                /\ UNCHANGED << mem, sb, lock, fsleep, wloc, spur, wkind, 
                                crlist, nhelp, started, cpulen, slot, func, cnt, 
                                queued, fin, uaf, errs, iv, pa, hd, tl, old, 
                                cur, nx, cbc, isrt, ec, wc, gd, dc, newc, regs, 
-                               kk, ci, cac, fa, gps >>
+                               kk, ci, cac, fa, gps, sigs, insig, ST, hheld, 
+                               hent >>
 
 t_ret(self) == /\ pc[self] = "t_ret"
                /\ IF opx[self].op = "call"
@@ -3269,7 +3636,25 @@ t_ret(self) == /\ pc[self] = "t_ret"
                                bsnap, alive, uaf, opx, iv, pa, hd, tl, old, 
                                cur, nx, cbc, isrt, en, ec, wc, res, gd, fc, dc, 
                                newc, cidef, cifl, cn, bk, regs, kk, sci, ci, 
-                               cac, fa, gps, stack >>
+                               cac, fa, gps, sigs, insig, oalive, gold, stack, 
+                               ST, hheld, hent >>
+
+t_pub(self) == /\ pc[self] = "t_pub"
+               /\ Drained(self)
+               /\ gold' = [gold EXCEPT ![self] = mem["gptr"]]
+               /\ mem' = [mem EXCEPT !["gptr"] = opx[self].n]
+               /\ uaf' = (uaf \/ Dead("gptr"))
+               /\ acc' = Ev(self, "xchg", "gptr", (opx[self].n), "-", (gold'[self]))
+               /\ res' = [res EXCEPT ![self] = gold'[self]]
+               /\ pc' = [pc EXCEPT ![self] = "t_ret"]
+               /\ UNCHANGED << sb, lock, fsleep, wloc, spur, wkind, crlist, 
+                               nhelp, started, cpulen, tcrd, mycpu, slot, func, 
+                               rnest, cs, ncs, cnt, snap, queued, fin, bsnap, 
+                               alive, errs, pci, opx, iv, pa, hd, tl, old, cur, 
+                               nx, cbc, isrt, en, ec, wc, gd, fc, dc, newc, 
+                               cidef, cifl, cn, bk, regs, kk, sci, ci, cac, fa, 
+                               gps, sigs, insig, oalive, stack, ST, hheld, 
+                               hent >>
 
 t_crl(self) == /\ pc[self] = "t_crl"
                /\ Drained(self) /\ lock = "free"
@@ -3285,7 +3670,8 @@ t_crl(self) == /\ pc[self] = "t_crl"
                                alive, uaf, errs, pci, opx, iv, pa, hd, tl, old, 
                                cur, nx, cbc, isrt, en, ec, wc, res, gd, fc, dc, 
                                newc, cidef, cifl, cn, bk, regs, kk, sci, ci, 
-                               cac, fa, gps >>
+                               cac, fa, gps, sigs, insig, oalive, gold, ST, 
+                               hheld, hent >>
 
 t_cru(self) == /\ pc[self] = "t_cru"
                /\ slot' = [slot EXCEPT ![opx[self].x] = newc[self]]
@@ -3300,7 +3686,8 @@ t_cru(self) == /\ pc[self] = "t_cru"
                                alive, uaf, errs, pci, opx, iv, pa, hd, tl, old, 
                                cur, nx, cbc, isrt, en, ec, wc, gd, fc, dc, 
                                newc, cidef, cifl, cn, bk, regs, kk, sci, ci, 
-                               cac, fa, gps, stack >>
+                               cac, fa, gps, sigs, insig, oalive, gold, stack, 
+                               ST, hheld, hent >>
 
 t_exit(self) == /\ pc[self] = "t_exit"
                 /\ Drained(self)
@@ -3312,10 +3699,11 @@ t_exit(self) == /\ pc[self] = "t_exit"
                                 fin, bsnap, alive, uaf, errs, pci, opx, iv, pa, 
                                 hd, tl, old, cur, nx, cbc, isrt, en, ec, wc, 
                                 res, gd, fc, dc, newc, cidef, cifl, cn, bk, 
-                                regs, kk, sci, ci, cac, fa, gps, stack >>
+                                regs, kk, sci, ci, cac, fa, gps, sigs, insig, 
+                                oalive, gold, stack, ST, hheld, hent >>
 
-thr(self) == t_top(self) \/ t_ret(self) \/ t_crl(self) \/ t_cru(self)
-                \/ t_exit(self)
+thr(self) == t_top(self) \/ t_ret(self) \/ t_pub(self) \/ t_crl(self)
+                \/ t_cru(self) \/ t_exit(self)
 
 Next == (\E self \in ProcSet:  \/ synchronize_rcu(self) \/ wake(self)
                                \/ enqueue(self) \/ data_init(self)
@@ -3327,6 +3715,7 @@ Next == (\E self \in ProcSet:  \/ synchronize_rcu(self) \/ wake(self)
                                \/ after_fork_parent(self))
            \/ (\E self \in Flushers: flusher(self))
            \/ (\E self \in {"W:env"}: spurw(self))
+           \/ (\E self \in SigIds: sig(self))
            \/ (\E self \in Helpers: helper(self))
            \/ (\E self \in Threads: thr(self))
 
@@ -3380,6 +3769,18 @@ DeadlockFree == AllDone \/ ENABLED Next
 DNext == Next \/ (AllDone /\ UNCHANGED vars)
 DSpec == Init /\ [][DNext]_vars
 SBBound == \A t \in Procs : Len(sb[t]) <= SBMax
+\* ---- C19: with signal handlers a thread takes no step while its handler runs; handlers, flushers and the futex environment always may
+TStep(t) == \/ (t \in Threads /\ thr(t)) \/ (t \in Helpers /\ helper(t))
+            \/ synchronize_rcu(t) \/ wake(t) \/ enqueue(t) \/ data_init(t) \/ get_default(t) \/ call_rcu(t)
+            \/ set_cpu(t) \/ create_all(t) \/ free_all(t) \/ data_free(t) \/ barrier_complete(t) \/ barrier(t) \/ before_fork(t) \/ after_fork_parent(t)
+InSig(t) == t \in SigThreads /\ insig[t]
+SigNext == \/ \E f \in Flushers : flusher(f)
+           \/ spurw("W:env")
+           \/ \E s \in SigIds : sig(s)
+           \/ \E t \in Procs : ~InSig(t) /\ TStep(t)
+SigDNext == SigNext \/ (AllDone /\ UNCHANGED vars)
+SigDSpec == Init /\ [][SigDNext]_vars
+SigRestores == "SigRestores" \notin errs
 \* liveness (no state constraint): every queued callback is eventually invoked, every rcu_barrier() returns
 FairSpec == Spec
 EventuallyInvoked == \A n \in Nodes : (n \in queued) ~> (n \in fin)
